@@ -76,7 +76,12 @@ Hypothesis Hsmall : small (c0 + 2 * length code + 8).
 Variable FU : nat.
 Hypothesis Hcall : forall fuel', fuel' < FU -> call_sim fuel'.
 
-Local Notation ClA := (Cl path prog cb CD base name SF).
+(* the names the VM binds only if the reference semantics does: all of them for statements (HPall below); all but the counter
+   while the upper bound of a `from` loop with a named counter is evaluated *)
+Variable P : str -> Prop.
+Hypothesis HPcd : forall x, assoc x CD <> None -> P x.
+
+Local Notation ClA := (Cl path prog P cb CD base name SF).
 
 (* expression code leaves the user names and the registers below d alone *)
 Definition fkeep (d : nat) (g g' : gstate) : Prop :=
@@ -125,7 +130,7 @@ Proof.
   pose proof (ext_labs _ _ _ _ _ He) as Hl. pose proof (ext_tail _ _ _ _ _ He) as Ht.
   pose proof (ext_find _ _ _ _ _ He) as Hf. pose proof (ext_out _ _ _ _ _ He) as Hout.
   destruct g as [cs fs o tr], g' as [cs' fs' o' tr']. cbn [cells frames out] in *. subst cs' o'.
-  destruct fs as [|f fs]; [destruct (Rfr2_ne _ _ _ H2); congruence|].
+  destruct fs as [|f fs]; [destruct (Rfr2_ne _ _ _ _ H2); congruence|].
   destruct fs' as [|f' fs']; [discriminate|].
   cbn [map tl] in Hl, Ht. subst fs'. injection Hl as Hl.
   assert (Hfind : forall x, uname0 x -> find_in_function x (f' :: fs) = find_in_function x (f :: fs)).
@@ -137,7 +142,7 @@ Proof.
   - eapply Rfr2_top; eassumption.
   - intros x k E. destruct (H3 x k E) as (Hx & c & c' & A1 & A2 & A3). split; [exact Hx|]. exists c, c'.
     split; [exact A1|]. split; [|exact A3]. cbn [frames] in *. rewrite (Hfind x Hx). exact A2.
-  - destruct (locals env) as [|sc l]; [destruct (Rfr2_ne _ _ _ H2); congruence|exact H6].
+  - destruct (locals env) as [|sc l]; [destruct (Rfr2_ne _ _ _ _ H2); congruence|exact H6].
   - rewrite <- H9. apply cf_top. exact Hl.
 Qed.
 
@@ -152,7 +157,7 @@ Definition envp (env : fenv) : fenv := {| locals := map strip_sc (locals env); c
 Lemma assoc_capsc : forall env x, assoc x (capsc env) =
   match assoc x CD with Some _ => Some (match lookup_scopes x (captured env) with Some c => c | None => 0%N end) | None => None end.
 Proof.
-  intros env x. unfold capsc. induction CD as [|[y ky] t IH]; [reflexivity|]. cbn [map fst assoc].
+  intros env x. unfold capsc. clear HPcd. induction CD as [|[y ky] t IH]; [reflexivity|]. cbn [map fst assoc].
   destruct (str_eqb y x) eqn:E; [apply str_eqb_iff in E; subst y; reflexivity|exact IH].
 Qed.
 
@@ -163,20 +168,20 @@ Lemma var_cell : forall b B env s g x k, ClA b B env s g -> bound2 B env -> kvar
      (forall a, a_cb a = cb -> lookup_var a g x = Some c') /\ b c c' k /\ sget s c = Some v /\ cell_get g c' = Some w /\ vrel b k v w.
 Proof.
   intros b B env s g x k H Hb Hk. unfold kvar in Hk. destruct (assoc x B) as [k1|] eqn:EB.
-  - inversion Hk; subst k1. destruct (cl_B _ _ _ _ _ _ _ _ _ _ _ _ H x k EB) as (Hx & c & c' & A1 & A2 & A3). split; [exact Hx|].
-    destruct (proj1 (cl_heap _ _ _ _ _ _ _ _ _ _ _ _ H) _ _ _ A3) as (v & w & E1 & E2 & E3).
+  - inversion Hk; subst k1. destruct (cl_B _ _ _ _ _ _ _ _ _ _ _ _ _ H x k EB) as (Hx & c & c' & A1 & A2 & A3). split; [exact Hx|].
+    destruct (proj1 (cl_heap _ _ _ _ _ _ _ _ _ _ _ _ _ H) _ _ _ A3) as (v & w & E1 & E2 & E3).
     exists c, c', v, w. split; [now apply lookup_app_some|]. split; [apply lookup_app_some; rewrite (lookup_strip x _ (proj2 (proj2 Hx))); exact A1|].
     split; [intros a _; unfold lookup_var; now rewrite A2|]. auto.
-  - destruct (cl_cap _ _ _ _ _ _ _ _ _ _ _ _ H x k Hk) as (Hx & c & c' & A1 & A2 & A3). split; [exact Hx|].
-    destruct (proj1 (cl_heap _ _ _ _ _ _ _ _ _ _ _ _ H) _ _ _ A3) as (v & w & E1 & E2 & E3).
+  - destruct (cl_cap _ _ _ _ _ _ _ _ _ _ _ _ _ H x k Hk) as (Hx & c & c' & A1 & A2 & A3). split; [exact Hx|].
+    destruct (proj1 (cl_heap _ _ _ _ _ _ _ _ _ _ _ _ _ H) _ _ _ A3) as (v & w & E1 & E2 & E3).
     assert (Hn : lookup_scopes x (locals env) = None).
     { destruct (lookup_scopes x (locals env)) eqn:E; [|reflexivity]. exfalso.
       assert (Hin : In x (map fst B)) by (apply (bound2_in _ _ _ Hb (proj2 (proj2 Hx))); congruence).
       clear -EB Hin. induction B as [|[y ky] t IH]; [destruct Hin|]. cbn [assoc map fst In] in *.
       destruct (str_eqb y x) eqn:E; [discriminate|]. destruct Hin as [->|Hin]; [now rewrite str_eqb_refl in E|auto]. }
     assert (Hf : find_in_function x (frames g) = None).
-    { pose proof (Rfr2_look _ _ _ (cl_fr _ _ _ _ _ _ _ _ _ _ _ _ H) x Hx) as Hl. rewrite Hn in Hl.
-      destruct (find_in_function x (frames g)); [contradiction|reflexivity]. }
+    { pose proof (Rfr2_look _ _ _ _ (cl_fr _ _ _ _ _ _ _ _ _ _ _ _ _ H) x Hx) as Hl. rewrite Hn in Hl.
+      destruct (find_in_function x (frames g)); [exfalso; apply Hl; apply HPcd; congruence|reflexivity]. }
     exists c, c', v, w. split; [rewrite lookup_app_split, Hn; exact A1|]. split.
     { rewrite lookup_app_split, (lookup_strip x _ (proj2 (proj2 Hx))), Hn. cbn [lookup_scopes]. rewrite assoc_capsc, Hk, A1. reflexivity. }
     split; [intros a Ha; unfold lookup_var, load_cb; rewrite Hf, Ha; exact A2|]. auto.
@@ -187,22 +192,22 @@ Proof.
   intros b B env s a g H Hb Hacb x c v Hsx Hl Hg Hfo. cbn [envp locals captured] in Hl.
   assert (Hxh : x <> hid).
   { intros ->. rewrite lookup_app_split, lookup_strip_hid in Hl. cbn [lookup_scopes] in Hl. rewrite assoc_capsc in Hl.
-    destruct (assoc hid CD) as [k|] eqn:Ek; [|discriminate]. destruct (cl_cap _ _ _ _ _ _ _ _ _ _ _ _ H hid k Ek) as (Hx & _). exact (proj2 (proj2 Hx) eq_refl). }
+    destruct (assoc hid CD) as [k|] eqn:Ek; [|discriminate]. destruct (cl_cap _ _ _ _ _ _ _ _ _ _ _ _ _ H hid k Ek) as (Hx & _). exact (proj2 (proj2 Hx) eq_refl). }
   rewrite lookup_app_split, (lookup_strip x _ Hxh) in Hl. destruct (lookup_scopes x (locals env)) as [c1|] eqn:E1.
   - inversion Hl; subst c1.
     assert (Hx : uname0 x) by (apply (proj2 Hb); apply (bound2_in _ _ _ Hb Hxh); congruence).
-    pose proof (Rfr2_look _ _ _ (cl_fr _ _ _ _ _ _ _ _ _ _ _ _ H) x Hx) as Hk. rewrite E1 in Hk.
+    pose proof (Rfr2_look _ _ _ _ (cl_fr _ _ _ _ _ _ _ _ _ _ _ _ _ H) x Hx) as Hk. rewrite E1 in Hk.
     destruct (find_in_function x (frames g)) as [c'|] eqn:E2; [|contradiction]. destruct Hk as [k Hk].
-    destruct (proj1 (cl_heap _ _ _ _ _ _ _ _ _ _ _ _ H) _ _ _ Hk) as (v0 & w & A1 & A2 & A3). rewrite Hg in A1. inversion A1; subst v0.
+    destruct (proj1 (cl_heap _ _ _ _ _ _ _ _ _ _ _ _ _ H) _ _ _ Hk) as (v0 & w & A1 & A2 & A3). rewrite Hg in A1. inversion A1; subst v0.
     exists c'. split; [unfold lookup_var; now rewrite E2|]. destruct k as [|pk r|].
     + destruct A3 as [_ ->]. exact A2.
     + destruct A3 as (ps & body & cenv & loc & cb0 & -> & _). destruct Hfo.
     + destruct A3 as [_ ->]. exact A2.
   - cbn [lookup_scopes] in Hl. rewrite assoc_capsc in Hl. destruct (assoc x CD) as [k|] eqn:Ek; [|discriminate].
-    destruct (cl_cap _ _ _ _ _ _ _ _ _ _ _ _ H x k Ek) as (Hx & c2 & c' & A1 & A2 & A3). rewrite A1 in Hl. inversion Hl; subst c2.
-    pose proof (Rfr2_look _ _ _ (cl_fr _ _ _ _ _ _ _ _ _ _ _ _ H) x Hx) as Hk. rewrite E1 in Hk.
-    destruct (find_in_function x (frames g)) as [cz|] eqn:E2; [contradiction|].
-    destruct (proj1 (cl_heap _ _ _ _ _ _ _ _ _ _ _ _ H) _ _ _ A3) as (v0 & w & B1 & B2 & B3). rewrite Hg in B1. inversion B1; subst v0.
+    destruct (cl_cap _ _ _ _ _ _ _ _ _ _ _ _ _ H x k Ek) as (Hx & c2 & c' & A1 & A2 & A3). rewrite A1 in Hl. inversion Hl; subst c2.
+    pose proof (Rfr2_look _ _ _ _ (cl_fr _ _ _ _ _ _ _ _ _ _ _ _ _ H) x Hx) as Hk. rewrite E1 in Hk.
+    destruct (find_in_function x (frames g)) as [cz|] eqn:E2; [exfalso; apply Hk; apply HPcd; congruence|].
+    destruct (proj1 (cl_heap _ _ _ _ _ _ _ _ _ _ _ _ _ H) _ _ _ A3) as (v0 & w & B1 & B2 & B3). rewrite Hg in B1. inversion B1; subst v0.
     exists c'. split; [unfold lookup_var, load_cb; rewrite E2, Hacb; exact A2|]. destruct k as [|pk r|].
     + destruct B3 as [_ ->]. exact B2.
     + destruct B3 as (ps & body & cenv & loc & cb0 & -> & _). destruct Hfo.
@@ -244,17 +249,17 @@ Proof.
   { intros x Hx. destruct (Hvc x Hx) as (c & v & E1 & E2 & E3 & _). exists c, c, v. cbn [env0 envp locals captured]. auto. }
   destruct (eval_pure_congr e Hp fuel env0 s env s Hag) as [Hst0 Ecg]. rewrite Ecg.
   assert (Hsm : small (d + length (pcode d e) + 3)) by (eapply small_le; [|exact Hsmall]; lia).
-  assert (Hfr : frames g <> []) by exact (proj2 (Rfr2_ne _ _ _ (cl_fr _ _ _ _ _ _ _ _ _ _ _ _ HR))).
+  assert (Hfr : frames g <> []) by exact (proj2 (Rfr2_ne _ _ _ _ (cl_fr _ _ _ _ _ _ _ _ _ _ _ _ _ HR))).
   pose proof (sim_pure name code e Hp d fuel k a g env0 s Hl Hv Hsm Hc Hend Hip Hops Hfr (Cl_Renv b B env s a g HR Hb Hacb)) as H.
   destruct (eval fuel env0 e s) as [v s1|s1|f s1|]; cbn [sim_post res_to] in H |- *; [|contradiction| |exact Logic.I].
   - destruct H as (-> & Hfo & g' & R). split; [reflexivity|]. split; [exact Hfo|]. exists g'. split.
     + eapply run_ok_xrun. exact R.
     + split; [eapply Cl_ext; [exact HR|exact (proj2 R)|]|exact (proj2 R)].
-      eapply xreach_nd; [apply reaches_xreach_running; exact (proj1 R)|exact (cl_nd _ _ _ _ _ _ _ _ _ _ _ _ HR)].
+      eapply xreach_nd; [apply reaches_xreach_running; exact (proj1 R)|exact (cl_nd _ _ _ _ _ _ _ _ _ _ _ _ _ HR)].
   - destruct H as (-> & e0 & g' & R & Hr & He). split; [reflexivity|]. exists e0, g'. split; [|split].
     + now apply reaches_xfail.
     + exact Hr.
-    + rewrite (ext_out _ _ _ _ _ He). exact (cl_out _ _ _ _ _ _ _ _ _ _ _ _ HR).
+    + rewrite (ext_out _ _ _ _ _ He). exact (cl_out _ _ _ _ _ _ _ _ _ _ _ _ _ HR).
 Qed.
 
 (* ================================================================ progress of the activation *)
@@ -330,9 +335,9 @@ Lemma park2 : forall b B env s a1 g1 k1 d w, nth_error code k1 = Some (mkI OP_ST
 Proof.
   intros b B env s a1 g1 k1 d w Hi Hip Hops HC Hsd. subst k1.
   set (i1 := mkI OP_STORE_FAST [reg d]) in *.
-  destruct (Cl_bind_reg path prog cb CD base name SF b B env s (trc name a1 g1 i1) (reg d) w (Cl_trc _ _ _ _ _ _ _ _ HC) (reg_not_uname0 d))
+  destruct (Cl_bind_reg path prog P cb CD base name SF b B env s (trc name a1 g1 i1) (reg d) w (Cl_trc _ _ _ _ _ _ _ _ HC) (reg_not_uname0 d))
     as (f & fs & Ef & Hb). cbv zeta in Hb. destruct Hb as [Hb HC2].
-  match type of HC2 with Cl _ _ _ _ _ _ _ _ _ _ _ ?G => set (g2 := G) in * end.
+  match type of HC2 with Cl _ _ _ _ _ _ _ _ _ _ _ _ ?G => set (g2 := G) in * end.
   assert (Hv : N.to_nat (N.of_nat (length (cells (trc name a1 g1 i1)))) < length (cells g1) -> False) by (rewrite Nnat.Nat2N.id; cbn [trc add_trace cells]; lia).
   exists g2. split; [|split; [exact HC2|]].
   - split.
@@ -346,7 +351,7 @@ Proof.
       intros ->. apply Hy. exists d. split; [lia|]. split; [exact Hsd|reflexivity].
   - exists (N.of_nat (length (cells (trc name a1 g1 i1)))). split; [cbn [g2 frames find_in_function vars]; now rewrite assoc_set_same|].
     split; [unfold cell_get; cbn [g2 cells]; rewrite Nnat.Nat2N.id, nth_error_app2, Nat.sub_diag by lia; reflexivity|].
-    intros c k Hb0. destruct (heap_valid path prog _ _ _ _ _ _ (cl_heap _ _ _ _ _ _ _ _ _ _ _ _ HC) Hb0) as [_ Hc']. exact (Hv Hc').
+    intros c k Hb0. destruct (heap_valid path prog _ _ _ _ _ _ (cl_heap _ _ _ _ _ _ _ _ _ _ _ _ _ HC) Hb0) as [_ Hc']. exact (Hv Hc').
 Qed.
 
 (* load_fast #d : push the parked value *)
@@ -421,17 +426,19 @@ Proof.
   destruct (kblock (Some (pk0, KD)) false B0 G0 body) as [[B1 rets0]|] eqn:Eb0; [|discriminate].
   set (r0 := rkind body rets0) in *.
   assert (Hx : exists B' rets, kblock (Some (pk0, r0)) false B0 G0 body = Some (B', rets) /\
-                 (if nodupb ps && forallb src_nameb ps && forallb (kind_eqb r0) rets then Some (G0, pk0, r0) else None) = Some (G, pk, r)).
+                 (if nodupb ps && forallb src_nameb ps && forallb (ret_ok r0) rets then Some (G0, pk0, r0) else None) = Some (G, pk, r)).
   { destruct (kind_eqb r0 KD) eqn:Er.
     - apply kind_eqb_eq in Er. rewrite Er in *. exists B1, rets0. split; [exact Eb0|exact H].
     - destruct (kblock (Some (pk0, r0)) false B0 G0 body) as [[B2 rets]|] eqn:Eb; [|discriminate]. exists B2, rets. split; [reflexivity|exact H]. }
   destruct Hx as (B' & rets & Eb & Hc).
-  destruct (nodupb ps && forallb src_nameb ps && forallb (kind_eqb r0) rets) eqn:Ec; [|discriminate].
+  destruct (nodupb ps && forallb src_nameb ps && forallb (ret_ok r0) rets) eqn:Ec; [|discriminate].
   inversion Hc; subst G0 pk r. rewrite !andb_true_iff in Ec. destruct Ec as [[Hn Hs] Hr].
   destruct (capctx_spec B _ _ EG) as [A1 A2]. split; [|exact A2].
   split; [reflexivity|]. split; [now apply nodupb_sound2|]. split; [exact Hs|]. split; [exact A1|].
   split; [unfold r0, rkind; destruct (last_ret body); [now right|now left]|].
-  exists B', rets. split; [exact Eb|]. intros k Hk. rewrite forallb_forall in Hr. symmetry. apply kind_eqb_eq. exact (Hr k Hk).
+  exists B', rets. split; [exact Eb|]. intros k Hk. rewrite forallb_forall in Hr. specialize (Hr k Hk). unfold ret_ok in Hr.
+  apply orb_true_iff in Hr as [Hr|Hr]; [left; symmetry; now apply kind_eqb_eq|right].
+  apply andb_true_iff in Hr as [H1 H2]. apply kind_eqb_eq in H1. apply kind_eqb_eq in H2. auto.
 Qed.
 
 (* ---------------------------------------------------------------- a variable of any kind: load *)
@@ -652,7 +659,7 @@ Proof.
       [|cbn [a5 a4 upd set_ip a_ip]; lia|reflexivity|do 3 apply Cl_trc; exact HC3|split; [exact Hfov|reflexivity]].
     eapply mid_trans; [exact M05|]. apply mid_same; try reflexivity; [exact Rop|repeat split].
   - destruct Hop as (-> & e0 & Hf & Hrel). apply fail_post_intro. exists e0, (trc name a5 g5 (op_instr o)).
-    split; [eapply mid_fail; [exact M05|exact Hf]|]. split; [now apply err_rel_s_of|exact (cl_out _ _ _ _ _ _ _ _ _ _ _ _ HC3)].
+    split; [eapply mid_fail; [exact M05|exact Hf]|]. split; [now apply err_rel_s_of|exact (cl_out _ _ _ _ _ _ _ _ _ _ _ _ _ HC3)].
 Qed.
 
 (* ---------------------------------------------------------------- a call through a variable *)
@@ -728,7 +735,7 @@ Proof.
   assert (Hle12 : cinj_le b1 b2) by (unfold mid in M3; exact (proj1 (proj1 (proj2 M3)))).
   (* the callee *)
   pose proof (Hcall fuel ltac:(lia) b2 s2 g5t pk r ps body cenv loc cbf vs ws
-                (cl_heap _ _ _ _ _ _ _ _ _ _ _ _ HC5t) (cl_out _ _ _ _ _ _ _ _ _ _ _ _ HC5t) (cl_nd _ _ _ _ _ _ _ _ _ _ _ _ HC5t)
+                (cl_heap _ _ _ _ _ _ _ _ _ _ _ _ _ HC5t) (cl_out _ _ _ _ _ _ _ _ _ _ _ _ _ HC5t) (cl_nd _ _ _ _ _ _ _ _ _ _ _ _ _ HC5t)
                 (clos_ok_mono path prog _ _ _ _ _ _ _ _ _ Hle12 Hclos) Hvs) as Hcal.
   assert (Hact5 : act_same a5 (set_ops a5 []) /\ a_ss (set_ops a5 []) = a_ss a5) by (repeat split).
   destruct (call_clos_ fuel (RClos ps body cenv) vs s2) as [v s3|s3|flr s3|]; cbn [eres_ok]; [| | |exact Logic.I].
@@ -766,9 +773,9 @@ Proof.
   intros b B env s a1 g1 k1 d p n bv Hi Hsn Hpb Hip Hops HC Hsd. subst k1.
   set (i1 := mkI OP_STORE_SKIP [reg d; if p then s_one else s_zero; sN n]) in *.
   set (w := VBool bv) in *.
-  destruct (Cl_bind_reg path prog cb CD base name SF b B env s (trc name a1 g1 i1) (reg d) w (Cl_trc _ _ _ _ _ _ _ _ HC) (reg_not_uname0 d))
+  destruct (Cl_bind_reg path prog P cb CD base name SF b B env s (trc name a1 g1 i1) (reg d) w (Cl_trc _ _ _ _ _ _ _ _ HC) (reg_not_uname0 d))
     as (f & fs & Ef & Hb). cbv zeta in Hb. destruct Hb as [Hb HC2].
-  match type of HC2 with Cl _ _ _ _ _ _ _ _ _ _ _ ?G => set (g2 := G) in * end.
+  match type of HC2 with Cl _ _ _ _ _ _ _ _ _ _ _ _ ?G => set (g2 := G) in * end.
   assert (Hv : N.to_nat (N.of_nat (length (cells (trc name a1 g1 i1)))) < length (cells g1) -> False) by (rewrite Nnat.Nat2N.id; cbn [trc add_trace cells]; lia).
   exists g2. split; [|split; [exact HC2|]].
   - split.
@@ -782,7 +789,7 @@ Proof.
       intros ->. apply Hy. exists d. split; [lia|]. split; [exact Hsd|reflexivity].
   - exists (N.of_nat (length (cells (trc name a1 g1 i1)))). split; [cbn [g2 frames find_in_function vars]; now rewrite assoc_set_same|].
     split; [unfold cell_get; cbn [g2 cells]; rewrite Nnat.Nat2N.id, nth_error_app2, Nat.sub_diag by lia; reflexivity|].
-    intros c k Hb0. destruct (heap_valid path prog _ _ _ _ _ _ (cl_heap _ _ _ _ _ _ _ _ _ _ _ _ HC) Hb0) as [_ Hc']. exact (Hv Hc').
+    intros c k Hb0. destruct (heap_valid path prog _ _ _ _ _ _ (cl_heap _ _ _ _ _ _ _ _ _ _ _ _ _ HC) Hb0) as [_ Hc']. exact (Hv Hc').
 Qed.
 
 (* an operand of kind "data" never yields "no value" *)
@@ -853,7 +860,7 @@ Proof.
   assert (Hfail6 : (forall bv, inj va <> VBool bv) ->
             fail_post (FType 6) (exists e0 g', xfail prog name code a g e0 g' /\ err_rel_s (FType 6) e0 /\ out g' = rout s1)).
   { intros Hv. apply fail_post_intro. exists E_not_bool, (trc name a1 g1 i1).
-    split; [|split; [cbn; auto|exact (cl_out _ _ _ _ _ _ _ _ _ _ _ _ HC1)]].
+    split; [|split; [cbn; auto|exact (cl_out _ _ _ _ _ _ _ _ _ _ _ _ _ HC1)]].
     eapply mid_fail; [exact M1|]. eapply xstep_fail; [exact Hip1|exact Hi1|exact Hd1|].
     rewrite He1. destruct (inj va); try reflexivity. exfalso. exact (Hv b0 eq_refl). }
   destruct va as [z|bv|t| |p0 bd ev]; cbn [eres_ok]; try (apply Hfail6; intros b0; discriminate).
@@ -894,7 +901,7 @@ Proof.
   assert (Hfail6b : (forall b0, inj vb <> VBool b0) ->
             fail_post (FType 6) (exists e0 g', xfail prog name code a g e0 g' /\ err_rel_s (FType 6) e0 /\ out g' = rout s2)).
   { intros Hv. destruct (Hbsem _ eq_refl Hv) as (e0 & Hbo & Hrel). rewrite Hbo in Hx.
-    apply fail_post_intro. exists e0, (trc name a4 g4 i3). split; [|split; [now apply err_rel_s_of|exact (cl_out _ _ _ _ _ _ _ _ _ _ _ _ HC3)]].
+    apply fail_post_intro. exists e0, (trc name a4 g4 i3). split; [|split; [now apply err_rel_s_of|exact (cl_out _ _ _ _ _ _ _ _ _ _ _ _ _ HC3)]].
     eapply mid_fail; [exact M04|]. eapply xstep_fail; [reflexivity|exact Hi3'|apply dec_bin_op|exact Hx]. }
   destruct vb as [z|b2v|t| |p0 bd ev]; cbn [eres_ok]; try (apply Hfail6b; intros b0; discriminate).
   cbn [inj] in Hx.
@@ -927,7 +934,7 @@ Proof.
   assert (Hfail : (forall bv, inj va <> VBool bv) ->
             fail_post (FType 7) (exists e0 g', xfail prog name code a g e0 g' /\ err_rel_s (FType 7) e0 /\ out g' = rout s1)).
   { intros Hv. apply fail_post_intro. exists E_not_bool, (trc name a1 g1 i1).
-    split; [|split; [cbn; auto|exact (cl_out _ _ _ _ _ _ _ _ _ _ _ _ HC1)]].
+    split; [|split; [cbn; auto|exact (cl_out _ _ _ _ _ _ _ _ _ _ _ _ _ HC1)]].
     eapply mid_fail; [exact M1|]. eapply xstep_fail; [exact Hip1|exact Hi1|apply dec_not|].
     rewrite Hx. destruct (inj va); try reflexivity. exfalso. exact (Hv b0 eq_refl). }
   destruct va as [z|bv|t| |p0 bd ev]; cbn [eres_ok]; try (apply Hfail; intros b0; discriminate).
@@ -936,6 +943,41 @@ Proof.
     [|cbn [upd set_ip a_ip]; lia|reflexivity|apply Cl_trc; exact HC1|split; [exact Logic.I|reflexivity]].
   eapply mid_trans; [eapply mid_mono; [|exact M1]; lia|]. apply mid_same; try reflexivity; [|repeat split].
   eapply (xstep_next prog name code a1 g1 i1 _ (a_ip a1) (set_ops a1 [VBool (negb bv)])); [reflexivity|rewrite Hip1; exact Hi1|apply dec_not|exact Hx].
+Qed.
+
+(* ---------------------------------------------------------------- -a, the operand contains a call *)
+Lemma espec_neg : forall ea, espec ea -> espec (ENeg ea).
+Proof.
+  intros ea IHa b B d lr k0 fuel kp a g env s kd Hfu Hk Hb Hinst Hd Hc Hend Hip Hcb Hops HC.
+  rewrite kexpr_eq in Hk. destruct (ok_dexpr B CD (ENeg ea)) eqn:Ho.
+  { inversion Hk; subst kd. exact (espec_data _ b B d lr k0 fuel kp a g env s Ho Hb Hd Hc Hend Hip Hcb Hops HC). }
+  destruct (kexpr SF B CD ea) as [[|? ?|]|] eqn:Ea; try discriminate. inversion Hk; subst kd.
+  destruct fuel as [|fuel]; [exact Logic.I|]. rewrite eval_ENeg.
+  rewrite ec_ENeg in *. destruct (ec path (S d) lr k0 ea) as [ca fa] eqn:Eca. cbn [fst snd] in *.
+  rewrite !app_length in *. cbn [length] in *.
+  apply code_at_app in Hc as [Hca Hc]. apply code_at_cons in Hc as [Hi1 _].
+  set (la := length ca) in *.
+  pose proof (IHa b B (S d) lr k0 fuel kp a g env s KD ltac:(lia) Ea Hb) as He. rewrite Eca in He. cbn [fst snd] in He.
+  specialize (He Hinst ltac:(fold la; lia) Hca ltac:(fold la; lia) Hip Hcb Hops HC). fold la in He.
+  destruct (eval fuel env ea s) as [va s1|s1|f s1|]; [|exfalso; exact (eres_noval_KD _ _ _ _ _ _ _ _ _ He)|exact He|exact Logic.I].
+  apply eres_val_inv in He. destruct He as (a1 & g1 & b1 & wa & M1 & Hip1 & Hops1 & HC1 & [Hfoa ->]).
+  set (i1 := mkI OP_NEG []) in *.
+  pose proof (exec_neg a1 (trc name a1 g1 i1) (inj va) Hops1) as Hx.
+  assert (Hfail : (forall z, inj va <> VInt z) ->
+            fail_post (FType 7) (exists e0 g', xfail prog name code a g e0 g' /\ err_rel_s (FType 7) e0 /\ out g' = rout s1)).
+  { intros Hv. apply fail_post_intro. exists E_invalid_op, (trc name a1 g1 i1).
+    split; [|split; [cbn; auto|exact (cl_out _ _ _ _ _ _ _ _ _ _ _ _ _ HC1)]].
+    eapply mid_fail; [exact M1|]. eapply xstep_fail; [exact Hip1|exact Hi1|apply dec_neg|].
+    rewrite Hx. destruct (inj va); try reflexivity. exfalso. exact (Hv z eq_refl). }
+  destruct va as [z|bv|t| |p0 bd ev]; cbn [eres_ok]; try (apply Hfail; intros z0; discriminate).
+  cbn [inj] in Hx. unfold arith_res. destruct (i32_ok (- z)) eqn:Eok.
+  - apply (eres_val b B env s d _ a g KD (RInt (- z)) s1 (upd a1 (S (a_ip a1)) [VInt (- z)]) (trc name a1 g1 i1) b1 (VInt (- z)));
+      [|cbn [upd set_ip a_ip]; lia|reflexivity|apply Cl_trc; exact HC1|split; [exact Logic.I|reflexivity]].
+    eapply mid_trans; [eapply mid_mono; [|exact M1]; lia|]. apply mid_same; try reflexivity; [|repeat split].
+    eapply (xstep_next prog name code a1 g1 i1 _ (a_ip a1) (set_ops a1 [VInt (- z)])); [reflexivity|rewrite Hip1; exact Hi1|apply dec_neg|exact Hx].
+  - cbn [eres_ok]. apply fail_post_intro. exists (E_overflow OP_NEG), (trc name a1 g1 i1).
+    split; [|split; [cbn; auto|exact (cl_out _ _ _ _ _ _ _ _ _ _ _ _ _ HC1)]].
+    eapply mid_fail; [exact M1|]. eapply xstep_fail; [exact Hip1|exact Hi1|apply dec_neg|exact Hx].
 Qed.
 
 (* ---------------------------------------------------------------- (a) or b , get a : optionals whose operands contain calls *)
@@ -1019,7 +1061,7 @@ Proof.
     eapply (xstep_next prog name code a1 g1 i1 _ (a_ip a1) a1); [reflexivity|rewrite Hip1; exact Hi1|apply dec_unwrap|exact Hx']. }
   destruct va as [z|bv|t| |p0 bd ev]; try (apply Hnn; discriminate).
   cbn [inj] in Hx. cbn [eres_ok]. apply fail_post_intro. exists (E_unwrap_nil sp), (trc name a1 g1 i1).
-  split; [|split; [reflexivity|exact (cl_out _ _ _ _ _ _ _ _ _ _ _ _ HC1)]].
+  split; [|split; [reflexivity|exact (cl_out _ _ _ _ _ _ _ _ _ _ _ _ _ HC1)]].
   eapply mid_fail; [exact M1|]. eapply xstep_fail; [exact Hip1|exact Hi1|apply dec_unwrap|exact Hx].
 Qed.
 
@@ -1061,7 +1103,7 @@ Proof.
   { clear -El. revert pk El. induction l as [|e l IH]; intros pk El; cbn [kargs] in El; [inversion El; reflexivity|].
     destruct (kexpr SF B CD e); [|discriminate]. destruct (kargs SF B CD l) as [ks|]; [|discriminate]. inversion El. cbn [length]. now rewrite (IH ks). }
   (* the executing function value *)
-  pose proof (cl_cur _ _ _ _ _ _ _ _ _ _ _ _ HC3) as Hcur. unfold cur_ok in Hcur. rewrite ESF in Hcur.
+  pose proof (cl_cur _ _ _ _ _ _ _ _ _ _ _ _ _ HC3) as Hcur. unfold cur_ok in Hcur. rewrite ESF in Hcur.
   destruct Hcur as (ps & body & cenv & Ecur & Hclos). rewrite Ecur.
   (* reload the arguments *)
   destruct (loads_sim l ws (S d) (kp + la) b2 (S d) s2 a3 g3 ltac:(congruence) Hreg ltac:(atp Hcl) Hip3) as (g4 & M4 & Hf4 & Hc4 & Ho4).
@@ -1077,11 +1119,11 @@ Proof.
   assert (Hcb4 : a_cb a4 = cb).
   { unfold mid, rest in M3. destruct M3 as (_ & _ & _ & (_ & _ & A3) & _). cbn [a4 upd set_ip set_ops a_cb]. congruence. }
   assert (Hx : exec_d DCallSelf a4 g4t = SCall name cb ws (set_ops a4 []) g4t).
-  { unfold exec_d. rewrite (cl_cf _ _ _ _ _ _ _ _ _ _ _ _ HC4t). cbn [a4 upd set_ip set_ops a_ops]. now rewrite <- Hcb4. }
+  { unfold exec_d. rewrite (cl_cf _ _ _ _ _ _ _ _ _ _ _ _ _ HC4t). cbn [a4 upd set_ip set_ops a_ops]. now rewrite <- Hcb4. }
   assert (Hfin : S (a_ip a4) = kp + (la + (na + 1))) by (cbn [a4 upd set_ip a_ip]; lia).
   (* the callee *)
   pose proof (Hcall fuel ltac:(lia) b2 s2 g4t pk kd ps body cenv name cb vs ws
-                (cl_heap _ _ _ _ _ _ _ _ _ _ _ _ HC4t) (cl_out _ _ _ _ _ _ _ _ _ _ _ _ HC4t) (cl_nd _ _ _ _ _ _ _ _ _ _ _ _ HC4t)
+                (cl_heap _ _ _ _ _ _ _ _ _ _ _ _ _ HC4t) (cl_out _ _ _ _ _ _ _ _ _ _ _ _ _ HC4t) (cl_nd _ _ _ _ _ _ _ _ _ _ _ _ _ HC4t)
                 Hclos Hvs) as Hcal.
   destruct (call_clos_ fuel (RClos ps body cenv) vs s2) as [v s3|s3|flr s3|]; cbn [eres_ok]; [| | |exact Logic.I].
   - destruct Hcal as (fuel' & g6 & b3 & w & Hrun & He3 & Hh3 & Hv3 & Hf6 & Ho6 & Hk6 & Hl6).
@@ -1124,6 +1166,7 @@ Proof.
   - intros ea eb IHa IHb. exact (espec_logic false ea eb IHa IHb).
   - intros ea eb IHa IHb. exact (espec_logic true ea eb IHa IHb).
   - exact espec_not.
+  - exact espec_neg.
   - (* ECall *)
     intros f l _ IHl. destruct f as [| | | |g0| | | | | | | | | |];
       try (intros bb BB dd lrr kk0 fuell kpp aa gg envv ss kdd Hfu Hk; rewrite kexpr_eq in Hk;
@@ -1204,12 +1247,12 @@ Proof.
   { intros x Hx. destruct (Hu x Hx) as [Hsx Hk]. unfold kvar in Hk. cbn [env0 locals captured app lookup_scopes]. rewrite assoc_lsc.
     destruct (assoc x B) as [kx|] eqn:EB.
     - inversion Hk; subst kx.
-      destruct (cl_B _ _ _ _ _ _ _ _ _ _ _ _ HR x KD EB) as (_ & c & c' & A1 & A2 & A3).
-      destruct (proj1 (cl_heap _ _ _ _ _ _ _ _ _ _ _ _ HR) _ _ _ A3) as (v & w & E1 & E2 & [Hfo ->]).
+      destruct (cl_B _ _ _ _ _ _ _ _ _ _ _ _ _ HR x KD EB) as (_ & c & c' & A1 & A2 & A3).
+      destruct (proj1 (cl_heap _ _ _ _ _ _ _ _ _ _ _ _ _ HR) _ _ _ A3) as (v & w & E1 & E2 & [Hfo ->]).
       exists c, v. rewrite A1. split; [reflexivity|]. split; [exact E1|]. split; [exact Hfo|]. apply (HE x c); [congruence|exact A1].
     - destruct (HN x Hx EB) as [N1 N2].
-      destruct (cl_cap _ _ _ _ _ _ _ _ _ _ _ _ HR x KD Hk) as (_ & c & c' & A1 & A2 & A3).
-      destruct (proj1 (cl_heap _ _ _ _ _ _ _ _ _ _ _ _ HR) _ _ _ A3) as (v & w & E1 & E2 & [Hfo ->]).
+      destruct (cl_cap _ _ _ _ _ _ _ _ _ _ _ _ _ HR x KD Hk) as (_ & c & c' & A1 & A2 & A3).
+      destruct (proj1 (cl_heap _ _ _ _ _ _ _ _ _ _ _ _ _ HR) _ _ _ A3) as (v & w & E1 & E2 & [Hfo ->]).
       exists c, v. rewrite assoc_cfree, N1, assoc_capsc, Hk, A1. split; [reflexivity|]. split; [exact E1|]. split; [exact Hfo|].
       rewrite lookup_app_split, N2, Hcap. exact A1. }
   assert (Hv : forall x, In x (used_e e) -> var_ok env0 s x).
@@ -1218,22 +1261,22 @@ Proof.
   { intros x Hx. destruct (Hvc x Hx) as (c & v & E1 & E2 & _ & E4). exists c, c, v. auto. }
   destruct (eval_pure_congr e Hp fuel env0 s envE s Hag) as [Hst0 Ecg]. rewrite Ecg.
   assert (Hsm : small (d + length (pcode d e) + 3)) by (eapply small_le; [|exact Hsmall]; lia).
-  assert (Hfr : frames g <> []) by exact (proj2 (Rfr2_ne _ _ _ (cl_fr _ _ _ _ _ _ _ _ _ _ _ _ HR))).
+  assert (Hfr : frames g <> []) by exact (proj2 (Rfr2_ne _ _ _ _ (cl_fr _ _ _ _ _ _ _ _ _ _ _ _ _ HR))).
   assert (HRenv : Renv env0 s a g).
   { intros x c v Hsx Hlk Hg Hfo. cbn [env0 locals captured app lookup_scopes] in Hlk. rewrite assoc_lsc in Hlk.
     destruct (assoc x B) as [kx|] eqn:EB.
-    - destruct (cl_B _ _ _ _ _ _ _ _ _ _ _ _ HR x kx EB) as (_ & c1 & c' & A1 & A2 & A3). rewrite A1 in Hlk. inversion Hlk; subst c1.
-      destruct (proj1 (cl_heap _ _ _ _ _ _ _ _ _ _ _ _ HR) _ _ _ A3) as (v0 & w & E1 & E2 & E3). rewrite Hg in E1. inversion E1; subst v0.
+    - destruct (cl_B _ _ _ _ _ _ _ _ _ _ _ _ _ HR x kx EB) as (_ & c1 & c' & A1 & A2 & A3). rewrite A1 in Hlk. inversion Hlk; subst c1.
+      destruct (proj1 (cl_heap _ _ _ _ _ _ _ _ _ _ _ _ _ HR) _ _ _ A3) as (v0 & w & E1 & E2 & E3). rewrite Hg in E1. inversion E1; subst v0.
       exists c'. split; [unfold lookup_var; now rewrite A2|]. destruct kx as [|pk r|].
       + destruct E3 as [_ ->]. exact E2.
       + destruct E3 as (ps & body & cenv & loc & cb0 & -> & _). destruct Hfo.
       + destruct E3 as [_ ->]. exact E2.
     - rewrite assoc_cfree in Hlk. destruct (lookup_scopes x (locals env)) as [c1|] eqn:E1l; [discriminate|].
       rewrite assoc_capsc in Hlk. destruct (assoc x CD) as [kx|] eqn:Ek; [|discriminate].
-      destruct (cl_cap _ _ _ _ _ _ _ _ _ _ _ _ HR x kx Ek) as (Hx & c2 & c' & A1 & A2 & A3). rewrite A1 in Hlk. inversion Hlk; subst c2.
-      pose proof (Rfr2_look _ _ _ (cl_fr _ _ _ _ _ _ _ _ _ _ _ _ HR) x Hx) as Hlk2. rewrite E1l in Hlk2.
-      destruct (find_in_function x (frames g)) as [cz|] eqn:E2; [contradiction|].
-      destruct (proj1 (cl_heap _ _ _ _ _ _ _ _ _ _ _ _ HR) _ _ _ A3) as (v0 & w & B1 & B2 & B3). rewrite Hg in B1. inversion B1; subst v0.
+      destruct (cl_cap _ _ _ _ _ _ _ _ _ _ _ _ _ HR x kx Ek) as (Hx & c2 & c' & A1 & A2 & A3). rewrite A1 in Hlk. inversion Hlk; subst c2.
+      pose proof (Rfr2_look _ _ _ _ (cl_fr _ _ _ _ _ _ _ _ _ _ _ _ _ HR) x Hx) as Hlk2. rewrite E1l in Hlk2.
+      destruct (find_in_function x (frames g)) as [cz|] eqn:E2; [exfalso; apply Hlk2; apply HPcd; congruence|].
+      destruct (proj1 (cl_heap _ _ _ _ _ _ _ _ _ _ _ _ _ HR) _ _ _ A3) as (v0 & w & B1 & B2 & B3). rewrite Hg in B1. inversion B1; subst v0.
       exists c'. split; [unfold lookup_var, load_cb; rewrite E2, Hacb; exact A2|]. destruct kx as [|pk r|].
       + destruct B3 as [_ ->]. exact B2.
       + destruct B3 as (ps & body & cenv & loc & cb0 & -> & _). destruct Hfo.
@@ -1243,14 +1286,34 @@ Proof.
   - destruct H as (-> & Hfo & g' & R). split; [reflexivity|]. split; [exact Hfo|]. exists g'. split.
     + eapply run_ok_xrun. exact R.
     + split; [eapply Cl_ext; [exact HR|exact (proj2 R)|]|exact (proj2 R)].
-      eapply xreach_nd; [apply reaches_xreach_running; exact (proj1 R)|exact (cl_nd _ _ _ _ _ _ _ _ _ _ _ _ HR)].
+      eapply xreach_nd; [apply reaches_xreach_running; exact (proj1 R)|exact (cl_nd _ _ _ _ _ _ _ _ _ _ _ _ _ HR)].
   - destruct H as (-> & e0 & g' & R & Hr & He). split; [reflexivity|]. exists e0, g'. split; [|split].
     + now apply reaches_xfail.
     + exact Hr.
-    + rewrite (ext_out _ _ _ _ _ He). exact (cl_out _ _ _ _ _ _ _ _ _ _ _ _ HR).
+    + rewrite (ext_out _ _ _ _ _ He). exact (cl_out _ _ _ _ _ _ _ _ _ _ _ _ _ HR).
 Qed.
 
 (* ================================================================ statements *)
+(* between statements the VM binds a name only if the reference semantics does *)
+Hypothesis HPall : forall x, P x.
+(* the upper bound of a `from` loop with a named counter x: the VM has bound x already, the reference semantics has not (x is not
+   the name of a captured variable); this is espec_all for the relation that leaves x out (ghost_all below) *)
+Definition ghost_spec : Prop :=
+  forall x eb, assoc x CD = None -> uname0 x ->
+  forall b B d lr k0 fuel kp a g env s,
+    fuel <= FU -> kexpr SF B CD eb = Some KD -> bound2 B env ->
+    installed (snd (ec path d lr k0 eb)) ->
+    d + length (fst (ec path d lr k0 eb)) <= c0 + length code + 2 ->
+    code_at code kp (fst (ec path d lr k0 eb)) -> kp + length (fst (ec path d lr k0 eb)) < length code ->
+    a_ip a = kp -> a_cb a = cb -> a_ops a = [] -> Cl path prog (fun y => y <> x) cb CD base name SF b B env s g ->
+    match eval fuel env eb s with
+    | EVal v s' => exists a' g' b' w, xrun prog name code a g a' g' /\ a_ip a' = kp + length (fst (ec path d lr k0 eb)) /\ a_ops a' = [w] /\
+          bext b b' s g /\ Cl path prog (fun y => y <> x) cb CD base name SF b' B env s' g' /\ vrel b' KD v w /\ rest b d s s' a g a' g'
+    | ENoVal s' => False
+    | EFail f s' => fail_post f (exists e0 g', xfail prog name code a g e0 g' /\ err_rel_s f e0 /\ out g' = rout s')
+    | EFuel => True
+    end.
+Hypothesis Hghost : ghost_spec.
 Definition smid (b0 : cinj) (s0 : rstate) (a0 : act) (g0 : gstate) (b : cinj) (s : rstate) (a : act) (g : gstate) : Prop :=
   xrun prog name code a0 g0 a g /\ bext b0 b s0 g0 /\ tl (frames g) = tl (frames g0) /\ act_same a0 a /\ a_ss a0 <= a_ss a /\
   keep b0 g0 g /\ lens s0 s g0 g.
@@ -1458,10 +1521,10 @@ Proof.
   destruct (assoc x B) as [k'|] eqn:EB.
   - (* an existing variable *)
     destruct (kind_eqb k k') eqn:Ek; [|discriminate]. apply kind_eqb_eq in Ek. subst k'. inversion Hk; subst B' rets.
-    destruct (cl_B _ _ _ _ _ _ _ _ _ _ _ _ HC1t x k EB) as (_ & c & c' & A1 & A2 & A3).
+    destruct (cl_B _ _ _ _ _ _ _ _ _ _ _ _ _ HC1t x k EB) as (_ & c & c' & A1 & A2 & A3).
     unfold assign. rewrite A1.
     assert (Hst : store_var g1t x w = Some (cell_set g1t c' w)) by (unfold store_var; now rewrite A2).
-    split; [apply same_tl_refl; exact (Cl_ne _ _ _ _ _ _ _ _ _ _ _ _ HC)|]. split; [exact Hb|].
+    split; [apply same_tl_refl; exact (Cl_ne _ _ _ _ _ _ _ _ _ _ _ _ _ HC)|]. split; [exact Hb|].
     exists a2, (cell_set g1t c' w), b1. split; [|split; [cbn [a2 set_ip a_ip]; lia|split; [reflexivity|split; [|exact (lk_mid lr _ _ _ _ _ _ _ _ _ M1)]]]].
     + eapply smid_trans; [exact SM1|]. unfold smid. split; [exact (Hstep _ Hst)|]. split; [apply bext_refl|].
       split; [reflexivity|]. split; [repeat split|]. split; [reflexivity|].
@@ -1476,13 +1539,13 @@ Proof.
       clear -EB Hin. induction B as [|[y ky] t IH]; [destruct Hin|]. cbn [assoc map fst In] in *.
       destruct (str_eqb y x) eqn:E; [discriminate|]. destruct Hin as [->|Hin]; [now rewrite str_eqb_refl in E|auto]. }
     assert (Hf : find_in_function x (frames g1t) = None).
-    { pose proof (Rfr2_look _ _ _ (cl_fr _ _ _ _ _ _ _ _ _ _ _ _ HC1t) x Hx) as Hl. rewrite Hn in Hl.
-      destruct (find_in_function x (frames g1t)); [contradiction|reflexivity]. }
-    destruct (locals env) as [|sc l] eqn:El; [exact (False_ind _ (Cl_ne _ _ _ _ _ _ _ _ _ _ _ _ HC El))|].
-    destruct (frames g1t) as [|f fs] eqn:Ef; [exact (False_ind _ (proj2 (Rfr2_ne _ _ _ (cl_fr _ _ _ _ _ _ _ _ _ _ _ _ HC1t)) Ef))|].
-    destruct (Cl_declare path prog cb CD base name SF b1 B env s1 g1t x k v w sc l f fs HC1t Hx Hv1 El Ef ltac:(rewrite El; exact Hn) EB (trace g1t))
+    { pose proof (Rfr2_look _ _ _ _ (cl_fr _ _ _ _ _ _ _ _ _ _ _ _ _ HC1t) x Hx) as Hl. rewrite Hn in Hl.
+      destruct (find_in_function x (frames g1t)); [exact (False_ind _ (Hl (HPall x)))|reflexivity]. }
+    destruct (locals env) as [|sc l] eqn:El; [exact (False_ind _ (Cl_ne _ _ _ _ _ _ _ _ _ _ _ _ _ HC El))|].
+    destruct (frames g1t) as [|f fs] eqn:Ef; [exact (False_ind _ (proj2 (Rfr2_ne _ _ _ _ (cl_fr _ _ _ _ _ _ _ _ _ _ _ _ _ HC1t)) Ef))|].
+    destruct (Cl_declare path prog P cb CD base name SF b1 B env s1 g1t x k v w sc l f fs HC1t Hx Hv1 El Ef ltac:(rewrite El; exact Hn) EB (trace g1t))
       as [HC2 He2]. cbv zeta in HC2, He2.
-    match type of HC2 with Cl _ _ _ _ _ _ _ _ _ ?E ?S ?G => set (env' := E) in *; set (s' := S) in *; set (g2 := G) in * end.
+    match type of HC2 with Cl _ _ _ _ _ _ _ _ _ _ ?E ?S ?G => set (env' := E) in *; set (s' := S) in *; set (g2 := G) in * end.
     assert (Eas : assign env s1 x v = (env', s')).
     { unfold assign. rewrite El, Hn. unfold declare, alloc. rewrite El. reflexivity. }
     rewrite Eas.
@@ -1530,11 +1593,11 @@ Proof.
   set (i1 := mkI OP_STORE_OBJECT [x]) in *.
   set (g1t := trc name a1 g1 i1).
   pose proof (Cl_trc b1 B env s1 g1 name a1 i1 HC1) as HC1t. fold g1t in HC1t.
-  destruct (cl_cap _ _ _ _ _ _ _ _ _ _ _ _ HC1t x k EC) as (_ & c & c' & A1 & A2 & A3). rewrite A1.
+  destruct (cl_cap _ _ _ _ _ _ _ _ _ _ _ _ _ HC1t x k EC) as (_ & c & c' & A1 & A2 & A3). rewrite A1.
   set (a2 := set_ip (set_ops a1 []) (S (a_ip a1))).
   assert (Hcb1 : a_cb a1 = cb).
   { unfold smid in SM1. destruct SM1 as (_ & _ & _ & (_ & _ & A) & _). congruence. }
-  split; [apply same_tl_refl; exact (Cl_ne _ _ _ _ _ _ _ _ _ _ _ _ HC)|]. split; [exact Hb|].
+  split; [apply same_tl_refl; exact (Cl_ne _ _ _ _ _ _ _ _ _ _ _ _ _ HC)|]. split; [exact Hb|].
   exists a2, (cell_set g1t c' w), b1. split; [|split; [cbn [a2 set_ip a_ip]; lia|split; [reflexivity|split; [eapply Cl_update; eassumption|exact (lk_mid lr _ _ _ _ _ _ _ _ _ M1)]]]].
   eapply smid_trans; [exact SM1|]. unfold smid. split.
   - eapply (xstep_next prog name code a1 g1 i1 _ (a_ip a1) (set_ops a1 [])); [reflexivity|rewrite Hip1; exact Hi|apply dec_store_object|].
@@ -1562,7 +1625,7 @@ Proof.
   destruct (show_inj v Hfo) as (l & Hrs & Hsh). rewrite Hrs.
   set (g2 := emit_line (trc name a1 g1 (mkI OP_PRINTN [s_star])) l).
   set (a2 := set_ip a1 (S (a_ip a1))).
-  cbn [spost]. split; [apply same_tl_refl; exact (Cl_ne _ _ _ _ _ _ _ _ _ _ _ _ HC)|]. split; [exact Hb|].
+  cbn [spost]. split; [apply same_tl_refl; exact (Cl_ne _ _ _ _ _ _ _ _ _ _ _ _ _ HC)|]. split; [exact Hb|].
   exists (set_ip (set_ops a2 []) (S (a_ip a2))), (trc name a2 g2 (mkI OP_VOID [])), b1.
   split; [|split; [cbn [set_ip a_ip a2]; lia|split; [reflexivity|split; [apply Cl_trc; apply Cl_print; apply Cl_trc; exact HC1|exact (lk_mid lr _ _ _ _ _ _ _ _ _ M1)]]]].
   eapply smid_trans; [exact SM1|]. unfold smid. split.
@@ -1590,7 +1653,7 @@ Proof.
   assert (Hdone : forall s1 a1 g1 b1, smid b s a g b1 s1 a1 g1 -> lkeep lr (frames g) (frames g1) -> a_ip a1 = kp + length ce -> ClA b1 B env s1 g1 ->
             spost b B [] lr sl bt ct (kp + (length ce + 1)) env s a g (SOk SigNormal env s1)).
   { intros s1 a1 g1 b1 SM1 LK1 Hip1 HC1.
-    cbn [spost]. split; [apply same_tl_refl; exact (Cl_ne _ _ _ _ _ _ _ _ _ _ _ _ HC)|]. split; [exact Hb|].
+    cbn [spost]. split; [apply same_tl_refl; exact (Cl_ne _ _ _ _ _ _ _ _ _ _ _ _ _ HC)|]. split; [exact Hb|].
     exists (set_ip (set_ops a1 []) (S (a_ip a1))), (trc name a1 g1 (mkI OP_VOID [])), b1.
     split; [|split; [cbn [set_ip a_ip]; lia|split; [reflexivity|split; [apply Cl_trc; exact HC1|exact LK1]]]].
     eapply smid_trans; [exact SM1|]. apply smid_same; try reflexivity; [|repeat split].
@@ -1619,11 +1682,11 @@ Proof.
   destruct (eval fuel env e s) as [v s1|s1|f s1|]; cbn [eres_ok spost] in He |- *; [|exact Logic.I|exact He|exact Logic.I].
   apply eres_val_inv in He. destruct He as (a1 & g1 & b1 & w & M1 & Hip1 & Hops1 & HC1 & Hv1).
   unfold mid, rest in M1. destruct M1 as (R1 & E1 & T1 & A1 & S1 & K1 & F1 & L1).
-  split; [apply same_tl_refl; exact (Cl_ne _ _ _ _ _ _ _ _ _ _ _ _ HC)|].
+  split; [apply same_tl_refl; exact (Cl_ne _ _ _ _ _ _ _ _ _ _ _ _ _ HC)|].
   exists a1, g1, b1, w, k. split; [exact R1|]. split; [rewrite Hip1; exact Hi1|]. split; [exact Hops1|]. split; [exact E1|].
-  split; [exact (cl_heap _ _ _ _ _ _ _ _ _ _ _ _ HC1)|]. split; [exact Hv1|]. split; [now left|].
-  split; [exact (cl_out _ _ _ _ _ _ _ _ _ _ _ _ HC1)|].
-  split; [rewrite (Rfr2_drop _ _ _ (cl_fr _ _ _ _ _ _ _ _ _ _ _ _ HC1)); exact (cl_base _ _ _ _ _ _ _ _ _ _ _ _ HC1)|]. split; [exact K1|exact L1].
+  split; [exact (cl_heap _ _ _ _ _ _ _ _ _ _ _ _ _ HC1)|]. split; [exact Hv1|]. split; [now left|].
+  split; [exact (cl_out _ _ _ _ _ _ _ _ _ _ _ _ _ HC1)|].
+  split; [rewrite (Rfr2_drop _ _ _ _ (cl_fr _ _ _ _ _ _ _ _ _ _ _ _ _ HC1)); exact (cl_base _ _ _ _ _ _ _ _ _ _ _ _ _ HC1)|]. split; [exact K1|exact L1].
 Qed.
 
 (* ---------------------------------------------------------------- assert e *)
@@ -1645,11 +1708,11 @@ Proof.
   pose proof (exec_assert sp a1 (trc name a1 g1 i1) (inj v) Hops1) as Hx.
   assert (Hfail : forall f e0, exec_d (DAssert (Some sp)) a1 (trc name a1 g1 i1) = SFail e0 -> err_rel_s f e0 ->
             spost b B [] lr sl bt ct (kp + (length ce + 1)) env s a g (SFailed f s1)).
-  { intros f e0 Hex Hrel. apply (spost_fail_e b B [] lr sl bt ct _ env s a g f s1 e0 (trc name a1 g1 i1)); [|exact Hrel|exact (cl_out _ _ _ _ _ _ _ _ _ _ _ _ HC1)].
+  { intros f e0 Hex Hrel. apply (spost_fail_e b B [] lr sl bt ct _ env s a g f s1 e0 (trc name a1 g1 i1)); [|exact Hrel|exact (cl_out _ _ _ _ _ _ _ _ _ _ _ _ _ HC1)].
     eapply smid_fail; [exact SM1|]. eapply xstep_fail; [exact Hip1|exact Hi1|apply dec_assert|exact Hex]. }
   destruct v as [z|[|]|t| |p bd ev]; cbn [inj val_equals] in Hx; try contradiction.
   - eapply Hfail; [exact Hx|]. cbn. auto.
-  - cbn [spost]. split; [apply same_tl_refl; exact (Cl_ne _ _ _ _ _ _ _ _ _ _ _ _ HC)|]. split; [exact Hb|].
+  - cbn [spost]. split; [apply same_tl_refl; exact (Cl_ne _ _ _ _ _ _ _ _ _ _ _ _ _ HC)|]. split; [exact Hb|].
     exists (set_ip (set_ops a1 []) (S (a_ip a1))), (trc name a1 g1 i1), b1.
     split; [|split; [cbn [set_ip a_ip]; lia|split; [reflexivity|split; [apply Cl_trc; exact HC1|exact (lk_mid lr _ _ _ _ _ _ _ _ _ M1)]]]].
     eapply smid_trans; [exact SM1|]. apply smid_same; try reflexivity; [|repeat split].
@@ -1695,7 +1758,7 @@ Proof.
     { rewrite Hx1. destruct (inj r); try reflexivity. contradiction. }
     set (g2 := cell_set g1t c' (inj r)).
     set (a2 := set_ip (set_ops a1 [inj r]) (S (a_ip a1))).
-    cbn [spost]. split; [apply same_tl_refl; exact (Cl_ne _ _ _ _ _ _ _ _ _ _ _ _ HC)|]. split; [exact Hb|].
+    cbn [spost]. split; [apply same_tl_refl; exact (Cl_ne _ _ _ _ _ _ _ _ _ _ _ _ _ HC)|]. split; [exact Hb|].
     exists (set_ip (set_ops a2 []) (S (a_ip a2))), (trc name a2 g2 (mkI OP_VOID [])), b1.
     split; [|split; [cbn [a2 set_ip a_ip]; lia|split; [reflexivity|split; [|exact (lk_mid lr _ _ _ _ _ _ _ _ _ M1)]]]].
     + eapply smid_trans; [exact SM1|]. unfold smid. split.
@@ -1706,9 +1769,9 @@ Proof.
       * split; [apply bext_refl|]. split; [reflexivity|]. split; [repeat split|]. split; [reflexivity|].
         split; [change (keep b1 g1t (cell_set g1t c' (inj r))); eapply keep_cell_set; exact Hbc|].
         split; [cbn [sset store]; rewrite set_nth_length; lia|cbn [g2 cell_set cells g1t trc add_trace]; rewrite set_nth_length; lia].
-    + apply Cl_trc. apply (Cl_update path prog cb CD base name SF b1 B env s1 g1t c c' KD r (inj r) HC1t Hbc). split; [exact Hfr|reflexivity].
+    + apply Cl_trc. apply (Cl_update path prog P cb CD base name SF b1 B env s1 g1t c c' KD r (inj r) HC1t Hbc). split; [exact Hfr|reflexivity].
   - destruct Hag as (-> & e0 & Hbo & Hrel). rewrite Hbo in Hx1.
-    apply (spost_fail_e b B [] lr sl bt ct _ env s a g f s1 e0 g1t); [|now apply err_rel_s_of|exact (cl_out _ _ _ _ _ _ _ _ _ _ _ _ HC1)].
+    apply (spost_fail_e b B [] lr sl bt ct _ env s a g f s1 e0 g1t); [|now apply err_rel_s_of|exact (cl_out _ _ _ _ _ _ _ _ _ _ _ _ _ HC1)].
     eapply smid_fail; [exact SM1|]. eapply xstep_fail; [exact Hip1|exact Hi1|apply dec_bin_op_assign|exact Hx1].
 Qed.
 
@@ -1724,8 +1787,8 @@ Proof.
   cbn [sc fst snd length sln] in *. apply items_at_cons in Hc as [Hi _]. cbn [item_instr] in Hi.
   change (Eval.exec (S fuel) env SBreak s) with (SOk SigBreak env s).
   set (i1 := mkI OP_JMP_POP [sN (bt - kp); sN m]) in *.
-  destruct (Cl_popn path prog cb CD base name SF m b B env s (trc name a g i1) (Cl_trc _ _ _ _ _ _ _ _ HC) Hm2) as (g2 & Hpop & HC2 & Hfr2 & Hc2 & Ho2).
-  cbn [spost]. split; [apply same_tl_refl; exact (Cl_ne _ _ _ _ _ _ _ _ _ _ _ _ HC)|].
+  destruct (Cl_popn path prog P cb CD base name SF m b B env s (trc name a g i1) (Cl_trc _ _ _ _ _ _ _ _ HC) Hm2) as (g2 & Hpop & HC2 & Hfr2 & Hc2 & Ho2).
+  cbn [spost]. split; [apply same_tl_refl; exact (Cl_ne _ _ _ _ _ _ _ _ _ _ _ _ _ HC)|].
   exists m, (set_ip a bt), g2, b. split; [reflexivity|]. split; [exact Hm1|].
   split; [|split; [reflexivity|split; [exact Hops|split; [exact HC2|exact Hfr2]]]].
   unfold jmid. split.
@@ -1747,8 +1810,8 @@ Proof.
   cbn [sc fst snd length sln] in *. apply items_at_cons in Hc as [Hi _]. cbn [item_instr] in Hi.
   change (Eval.exec (S fuel) env SContinue s) with (SOk SigContinue env s).
   set (i1 := mkI OP_JMP_POP [sN (ct - kp); sN (m - 1)]) in *.
-  destruct (Cl_popn path prog cb CD base name SF (m - 1) b B env s (trc name a g i1) (Cl_trc _ _ _ _ _ _ _ _ HC) ltac:(lia)) as (g2 & Hpop & HC2 & Hfr2 & Hc2 & Ho2).
-  cbn [spost]. split; [apply same_tl_refl; exact (Cl_ne _ _ _ _ _ _ _ _ _ _ _ _ HC)|].
+  destruct (Cl_popn path prog P cb CD base name SF (m - 1) b B env s (trc name a g i1) (Cl_trc _ _ _ _ _ _ _ _ HC) ltac:(lia)) as (g2 & Hpop & HC2 & Hfr2 & Hc2 & Ho2).
+  cbn [spost]. split; [apply same_tl_refl; exact (Cl_ne _ _ _ _ _ _ _ _ _ _ _ _ _ HC)|].
   exists m, (set_ip a ct), g2, b. split; [reflexivity|]. split; [exact Hm1|].
   split; [|split; [reflexivity|split; [exact Hops|split; [exact HC2|]]]].
   - unfold jmid. split.
@@ -1769,11 +1832,11 @@ Proof.
   destruct fuel as [|fuel]; [exact Logic.I|].
   cbn [sc fst snd length] in *. apply items_at_cons in Hc as [Hi _]. cbn [item_instr I] in Hi.
   change (Eval.exec (S fuel) env (SReturn None) s) with (SOk (SigReturn None) env s).
-  cbn [spost]. split; [apply same_tl_refl; exact (Cl_ne _ _ _ _ _ _ _ _ _ _ _ _ HC)|].
+  cbn [spost]. split; [apply same_tl_refl; exact (Cl_ne _ _ _ _ _ _ _ _ _ _ _ _ _ HC)|].
   exists a, g, b. split; [apply xrun_refl|]. split; [rewrite Hip; exact Hi|]. split; [exact Hops|]. split; [apply bext_refl|].
-  split; [exact (cl_heap _ _ _ _ _ _ _ _ _ _ _ _ HC)|]. split; [now left|].
-  split; [exact (cl_out _ _ _ _ _ _ _ _ _ _ _ _ HC)|].
-  split; [rewrite (Rfr2_drop _ _ _ (cl_fr _ _ _ _ _ _ _ _ _ _ _ _ HC)); exact (cl_base _ _ _ _ _ _ _ _ _ _ _ _ HC)|]. split; [apply keep_refl|apply lens_refl].
+  split; [exact (cl_heap _ _ _ _ _ _ _ _ _ _ _ _ _ HC)|]. split; [now left|].
+  split; [exact (cl_out _ _ _ _ _ _ _ _ _ _ _ _ _ HC)|].
+  split; [rewrite (Rfr2_drop _ _ _ _ (cl_fr _ _ _ _ _ _ _ _ _ _ _ _ _ HC)); exact (cl_base _ _ _ _ _ _ _ _ _ _ _ _ _ HC)|]. split; [apply keep_refl|apply lens_refl].
 Qed.
 
 (* ---------------------------------------------------------------- sequencing *)
@@ -1808,7 +1871,7 @@ Lemma bspec_of : forall l, Forall sspec l -> bspec l.
 Proof.
   induction l as [|st l IH]; intros HF b B lr il sl bt ct k0 fuel kp a g env s B' rets Hfu Hk Hb Hinst Hc Hend Hlc Hlrk Hip Hcb Hops Hss HC.
   - destruct fuel as [|fuel]; [exact Logic.I|]. rewrite exec_block_nil. cbn [kblock] in Hk. inversion Hk; subst B' rets.
-    cbn [bc fst length spost]. split; [apply same_tl_refl; exact (Cl_ne _ _ _ _ _ _ _ _ _ _ _ _ HC)|]. split; [exact Hb|].
+    cbn [bc fst length spost]. split; [apply same_tl_refl; exact (Cl_ne _ _ _ _ _ _ _ _ _ _ _ _ _ HC)|]. split; [exact Hb|].
     exists a, g, b. split; [apply smid_refl|]. split; [lia|]. split; [exact Hops|]. split; [exact HC|apply lkeep_refl].
   - pose proof (Forall_inv HF) as Hst. pose proof (Forall_inv_tail HF) as Hl. specialize (IH Hl).
     destruct fuel as [|fuel]; [exact Logic.I|]. rewrite exec_block_cons.
@@ -1837,7 +1900,7 @@ Proof.
       try (eapply (spost_rets b B1 r1 (r1 ++ r2)); [intros k Hk0; apply in_or_app; now left|intros; discriminate|exact H1]).
     cbn [spost] in H1. destruct H1 as (Hd & HB1 & a1 & g1 & b1 & SM1 & Hip1 & Hops1 & HC1 & LK1).
     assert (Hcb1 : a_cb a1 = cb) by (unfold smid in SM1; destruct SM1 as (_ & _ & _ & (_ & _ & A) & _); congruence).
-    pose proof (same_tl_length _ _ (Cl_ne _ _ _ _ _ _ _ _ _ _ _ _ HC) Hd) as Hlen1.
+    pose proof (same_tl_length _ _ (Cl_ne _ _ _ _ _ _ _ _ _ _ _ _ _ HC) Hd) as Hlen1.
     assert (Hss1 : length (locals env1) <= S (a_ss a1)).
     { unfold smid in SM1. destruct SM1 as (_ & _ & _ & _ & S1 & _). rewrite Hlen1. lia. }
     pose proof (IH b1 B1 lr il sl bt ct (k0 + length fs) fuel (kp + length cs) a1 g1 env1 s1 B3 r2 ltac:(lia) El HB1) as H2.
@@ -1902,17 +1965,17 @@ Proof. intros m [[|sc l] c u]; unfold popn, pop_scope; cbn [locals captured cur 
 Lemma Cl_names : forall b b' B env s g, ClA b B env s g -> cinj_le b b' ->
   forall x k, assoc x B = Some k -> uname0 x /\ exists c c', lookup_scopes x (locals env) = Some c /\ b' c c' k.
 Proof.
-  intros b b' B env s g HC Hle x k E. destruct (cl_B _ _ _ _ _ _ _ _ _ _ _ _ HC x k E) as (Hx & c & c' & A1 & _ & A3).
+  intros b b' B env s g HC Hle x k E. destruct (cl_B _ _ _ _ _ _ _ _ _ _ _ _ _ HC x k E) as (Hx & c & c' & A1 & _ & A3).
   split; [exact Hx|]. exists c, c'. split; [exact A1|exact (Hle _ _ _ A3)].
 Qed.
 (* the context of the enclosing scopes, seen from inside a block *)
 Lemma Cl_B_lift : forall b B env2 s g l, ClA b [] env2 s g -> tl (locals env2) = l -> locals env2 <> [] ->
   (forall x k, assoc x B = Some k -> uname0 x /\ exists c c', lookup_scopes x l = Some c /\ b c c' k) -> ClA b B env2 s g.
 Proof.
-  intros b B env2 s g l HC Htl Hne HB. apply (Cl_B_of path prog cb CD base name SF b B env2 s g HC).
+  intros b B env2 s g l HC Htl Hne HB. apply (Cl_B_of path prog P cb CD base name SF b B env2 s g HC).
   intros x k E. destruct (HB x k E) as (Hx & c & c' & A1 & A2). split; [exact Hx|]. exists c, c'. split; [|exact A2].
   destruct (locals env2) as [|sc2 l2] eqn:El2; [congruence|]. cbn [tl] in Htl. subst l2.
-  apply NS_lookup_tl; [rewrite <- El2; exact (cl_ns _ _ _ _ _ _ _ _ _ _ _ _ HC)|exact (proj2 (proj2 Hx))|exact A1].
+  apply NS_lookup_tl; [rewrite <- El2; exact (cl_ns _ _ _ _ _ _ _ _ _ _ _ _ _ HC)|exact (proj2 (proj2 Hx))|exact A1].
 Qed.
 
 (* the result of a block that runs in its own frame (if / else bodies), relative to the state after the push *)
@@ -1971,7 +2034,7 @@ Proof.
   cbn [spost bpost] in H |- *. destruct H as [Hd H].
   destruct Hd as [Htl Hne2]. cbn [push_scope locals tl] in Htl.
   assert (Hd' : same_tl env (pop_scope env2)).
-  { split; cbn [pop_scope locals]; rewrite Htl; [reflexivity|exact (Cl_ne _ _ _ _ _ _ _ _ _ _ _ _ HC)]. }
+  { split; cbn [pop_scope locals]; rewrite Htl; [reflexivity|exact (Cl_ne _ _ _ _ _ _ _ _ _ _ _ _ _ HC)]. }
   split; [exact Hd'|].
   destruct sig as [| | |[v|]]; [| | |exact H|exact H].
   - destruct H as (HB2 & a2 & g2 & b2 & SM2 & Hip2 & Hops2 & HC2 & _).
@@ -1980,12 +2043,12 @@ Proof.
     set (g2t := trc name a2 g2 i1).
     pose proof (Cl_trc b2 B' env2 s2 g2 name a2 i1 HC2) as HC2t. fold g2t in HC2t.
     destruct (locals env2) as [|sc2 l2] eqn:El2; [congruence|]. cbn [tl] in Htl. subst l2.
-    destruct (frames g2t) as [|f2 fs2] eqn:Ef2; [exact (False_ind _ (proj2 (Rfr2_ne _ _ _ (cl_fr _ _ _ _ _ _ _ _ _ _ _ _ HC2t)) Ef2))|].
+    destruct (frames g2t) as [|f2 fs2] eqn:Ef2; [exact (False_ind _ (proj2 (Rfr2_ne _ _ _ _ (cl_fr _ _ _ _ _ _ _ _ _ _ _ _ _ HC2t)) Ef2))|].
     assert (Efs : fs2 = frames g).
     { assert (Ht : tl (frames g2t) = frames g) by (change (frames g2t) with (frames g2); rewrite T2; reflexivity). rewrite Ef2 in Ht. exact Ht. }
     subst fs2.
     assert (HC3 : ClA b2 B (pop_scope env2) s2 (with_frames g2t (frames g))).
-    { apply (Cl_pop path prog cb CD base name SF b2 B' B env2 s2 g2t sc2 (locals env) f2 (frames g) HC2t El2 (Cl_ne _ _ _ _ _ _ _ _ _ _ _ _ HC) Ef2).
+    { apply (Cl_pop path prog P cb CD base name SF b2 B' B env2 s2 g2t sc2 (locals env) f2 (frames g) HC2t El2 (Cl_ne _ _ _ _ _ _ _ _ _ _ _ _ _ HC) Ef2).
       intros x k Hx. split; [eapply kblock_ext; eassumption|]. apply (bound2_look _ _ _ Hb). eapply assoc_in_keys; exact Hx. }
     split; [eapply bound2_eq; [exact Hb|cbn [pop_scope locals]; rewrite El2; reflexivity]|].
     cbn [ap set_ss a_ss] in S2. destruct (a_ss a2) as [|ss2] eqn:Ess2; [lia|].
@@ -2103,7 +2166,7 @@ Proof.
   assert (Hcb1 : a_cb a1 = cb) by (unfold smid in SM1; destruct SM1 as (_ & _ & _ & (_ & _ & A) & _); congruence).
   assert (Hss1 : a_ss a1 = a_ss a) by (unfold mid, rest in M1; destruct M1 as (_ & _ & _ & _ & S1 & _); exact S1).
   assert (Hnb : (forall b0, v <> RBool b0) -> spost b B rb lr sl bt ct (kp + (length cc + (1 + (length cb0 + 1)))) env s a g (SFailed (FType 12) s1)).
-  { intros Hv. apply (spost_fail_e b B rb lr sl bt ct _ env s a g (FType 12) s1 E_not_bool g1t); [|cbn; auto|exact (cl_out _ _ _ _ _ _ _ _ _ _ _ _ HC1)].
+  { intros Hv. apply (spost_fail_e b B rb lr sl bt ct _ env s a g (FType 12) s1 E_not_bool g1t); [|cbn; auto|exact (cl_out _ _ _ _ _ _ _ _ _ _ _ _ _ HC1)].
     eapply smid_fail; [exact SM1|]. eapply xstep_fail; [exact Hip1|exact Hi1|exact Hdec|].
     apply (exec_if_nb _ a1 g1t (inj v)); [exact Hops1|now apply not_bool_inj]. }
   destruct v as [z|bv|t| |p bd ev]; try (apply Hnb; intros b0; discriminate).
@@ -2122,7 +2185,7 @@ Proof.
     rewrite Efin in Hblk.
     exact (spost_of_bpost b B rb rb lr sl bt ct _ _ env s a g b1 s1 a1 g1 g1t _ _ _ (fun k H => H) SM1 (lk_mid lr _ _ _ _ _ _ _ _ _ M1) Rp eq_refl eq_refl ltac:(repeat split) eq_refl (no_tail _) Hblk).
   - (* false: jump over the body *)
-    split; [apply same_tl_refl; exact (Cl_ne _ _ _ _ _ _ _ _ _ _ _ _ HC)|]. split; [exact Hb|].
+    split; [apply same_tl_refl; exact (Cl_ne _ _ _ _ _ _ _ _ _ _ _ _ _ HC)|]. split; [exact Hb|].
     exists (set_ip (set_ops a1 []) (a_ip (set_ops a1 []) + off)), g1t, b1.
     split; [|split; [cbn [set_ip set_ops a_ip]; rewrite Hip1; unfold k1, off; lia|split; [reflexivity|split; [exact HC1t|exact (lk_mid lr _ _ _ _ _ _ _ _ _ M1)]]]].
     eapply smid_trans; [exact SM1|]. apply smid_same; try reflexivity; [|repeat split].
@@ -2167,7 +2230,7 @@ Proof.
   assert (Hcb1 : a_cb a1 = cb) by (unfold smid in SM1; destruct SM1 as (_ & _ & _ & (_ & _ & A) & _); congruence).
   assert (Hss1 : a_ss a1 = a_ss a) by (unfold mid, rest in M1; destruct M1 as (_ & _ & _ & _ & S1 & _); exact S1).
   assert (Hnb : (forall b0, v <> RBool b0) -> spost b B (rb ++ re) lr sl bt ct fin env s a g (SFailed (FType 12) s1)).
-  { intros Hv. apply (spost_fail_e b B (rb ++ re) lr sl bt ct _ env s a g (FType 12) s1 E_not_bool g1t); [|cbn; auto|exact (cl_out _ _ _ _ _ _ _ _ _ _ _ _ HC1)].
+  { intros Hv. apply (spost_fail_e b B (rb ++ re) lr sl bt ct _ env s a g (FType 12) s1 E_not_bool g1t); [|cbn; auto|exact (cl_out _ _ _ _ _ _ _ _ _ _ _ _ _ HC1)].
     eapply smid_fail; [exact SM1|]. eapply xstep_fail; [exact Hip1|exact Hi1|exact Hdec|].
     apply (exec_if_nb _ a1 g1t (inj v)); [exact Hops1|now apply not_bool_inj]. }
   destruct v as [z|bv|t| |p bd ev]; try (apply Hnb; intros b0; discriminate).
@@ -2260,8 +2323,8 @@ Proof.
   assert (HCB : ClA b2 B env2 s2 g2) by (eapply Cl_B_lift; [exact HC2|exact Htl|exact Hne2|exact HB]).
   split; [exact HCB|].
   destruct (locals env2) as [|sc2 l2] eqn:El2; [congruence|]. cbn [tl] in Htl. subst l2.
-  destruct (frames g2) as [|f2 fs2] eqn:Ef2; [exact (False_ind _ (proj2 (Rfr2_ne _ _ _ (cl_fr _ _ _ _ _ _ _ _ _ _ _ _ HC2)) Ef2))|].
-  cbn [tl]. apply (Cl_pop path prog cb CD base name SF b2 B B env2 s2 g2 sc2 (locals env) f2 fs2 HCB El2 Hne Ef2).
+  destruct (frames g2) as [|f2 fs2] eqn:Ef2; [exact (False_ind _ (proj2 (Rfr2_ne _ _ _ _ (cl_fr _ _ _ _ _ _ _ _ _ _ _ _ _ HC2)) Ef2))|].
+  cbn [tl]. apply (Cl_pop path prog P cb CD base name SF b2 B B env2 s2 g2 sc2 (locals env) f2 fs2 HCB El2 Hne Ef2).
   intros x k Hx. split; [exact Hx|]. apply (bound2_look _ _ _ Hb). eapply assoc_in_keys; exact Hx.
 Qed.
 
@@ -2301,14 +2364,14 @@ Proof.
   assert (Hcb1 : a_cb a1 = cb) by (unfold smid in SM1; destruct SM1 as (_ & _ & _ & (_ & _ & A) & _); congruence).
   assert (Hss1 : a_ss a1 = a_ss a) by (unfold mid, rest in M1; destruct M1 as (_ & _ & _ & _ & S1 & _); exact S1).
   assert (Hnb : (forall b0, v <> RBool b0) -> spost b B rb lr sl bt ct fin env s a g (SFailed (FType 12) s1)).
-  { intros Hv. apply (spost_fail_e b B rb lr sl bt ct _ env s a g (FType 12) s1 E_not_bool g1t); [|cbn; auto|exact (cl_out _ _ _ _ _ _ _ _ _ _ _ _ HC1)].
+  { intros Hv. apply (spost_fail_e b B rb lr sl bt ct _ env s a g (FType 12) s1 E_not_bool g1t); [|cbn; auto|exact (cl_out _ _ _ _ _ _ _ _ _ _ _ _ _ HC1)].
     eapply smid_fail; [exact SM1|]. eapply xstep_fail; [exact Hip1|exact Hi1|exact Hdec|].
     apply (exec_while_nb _ a1 g1t (inj v)); [exact Hops1|now apply not_bool_inj]. }
   destruct v as [z|bv|t| |p bd ev]; try (apply Hnb; intros b0; discriminate).
   pose proof (exec_while (Z.of_nat off) a1 g1t bv Hops1) as Hx.
   destruct bv.
   2:{ (* false: leave *)
-    split; [apply same_tl_refl; exact (Cl_ne _ _ _ _ _ _ _ _ _ _ _ _ HC)|]. split; [exact Hb|].
+    split; [apply same_tl_refl; exact (Cl_ne _ _ _ _ _ _ _ _ _ _ _ _ _ HC)|]. split; [exact Hb|].
     exists (set_ip (set_ops a1 []) (a_ip (set_ops a1 []) + off)), g1t, b1.
     split; [|split; [cbn [set_ip set_ops a_ip]; rewrite Hip1; unfold fin, kj, kb, off; lia|split; [reflexivity|split; [exact HC1t|exact (lk_mid lr _ _ _ _ _ _ _ _ _ M1)]]]].
     eapply smid_trans; [exact SM1|]. apply smid_same; try reflexivity; [|repeat split].
@@ -2319,7 +2382,7 @@ Proof.
   set (ap := set_ss a1' (S (a_ss a1'))). set (gp := push_frame g1t LWhile).
   assert (Rp : xrun prog name code a1 g1 ap gp).
   { eapply (xstep_push prog name code a1 g1 i1 _ kw LWhile (set_ops a1 [])); [exact Hip1|exact Hi1|exact Hdec|exact Hx]. }
-  pose proof (Cl_ne _ _ _ _ _ _ _ _ _ _ _ _ HC) as Hne.
+  pose proof (Cl_ne _ _ _ _ _ _ _ _ _ _ _ _ _ HC) as Hne.
   assert (Hl1 : 1 <= length (locals env)) by (destruct (locals env); [congruence|cbn [length]; lia]).
   assert (HC0 : ClA b1 B (push_scope env) s1 gp) by (apply Cl_push; [exact HC1t|reflexivity]).
   assert (Hb0 : bound2 B (push_scope env)) by (apply bound2_push; exact Hb).
@@ -2349,7 +2412,7 @@ Proof.
     set (g3 := with_frames (trc name a2 g2 ij) (tl (frames g2))).
     assert (R3 : xrun prog name code a2 g2 (set_ip a2 kp) g3).
     { apply (back_edge2 kj (1 + length cb0 + length cc) kp a2 g2 Hj'); [unfold fin, kj, kb, kw in *; lia|unfold fin in *; lia|
-        unfold kj, kb, kw; lia|exact Hip2|exact (proj2 (Rfr2_ne _ _ _ (cl_fr _ _ _ _ _ _ _ _ _ _ _ _ HC2)))]. }
+        unfold kj, kb, kw; lia|exact Hip2|exact (proj2 (Rfr2_ne _ _ _ _ (cl_fr _ _ _ _ _ _ _ _ _ _ _ _ _ HC2)))]. }
     destruct (Cl_body_end b2 B env env2 s2 (trc name a2 g2 ij) (Cl_trc _ _ _ _ _ _ _ _ HC2) Htl2 Hne Hne2 Hb (Hnames b2 Hle2)) as [_ HC3].
     change (with_frames (trc name a2 g2 ij) (tl (frames (trc name a2 g2 ij)))) with g3 in HC3.
     assert (SM3 : smid b s a g b2 s2 (set_ip a2 kp) g3).
@@ -2372,7 +2435,7 @@ Proof.
   destruct sig as [| | |[v|]].
   - (* the body ends normally *)
     destruct H as (_ & a2 & g2 & b2 & SM2 & Hip2 & Hops2 & HC2 & _).
-    apply (Hnext b2 s2 a2 g2 env2 (jmid_of_smid _ _ _ _ _ _ _ _ SM2) Hip2 Hops2 (Cl_weaken _ _ _ _ _ _ _ _ _ _ _ _ HC2)); [|exact Htl2|exact Hne2].
+    apply (Hnext b2 s2 a2 g2 env2 (jmid_of_smid _ _ _ _ _ _ _ _ SM2) Hip2 Hops2 (Cl_weaken _ _ _ _ _ _ _ _ _ _ _ _ _ HC2)); [|exact Htl2|exact Hne2].
     unfold smid in SM2. exact (proj1 (proj2 (proj2 SM2))).
   - (* break: the loop is left *)
     destruct H as (m & a2 & g2 & b2 & Hsl & _ & J & Hip2 & Hops2 & HC2 & Hf2). inversion Hsl; subst m.
@@ -2382,7 +2445,7 @@ Proof.
     exists a2, g2, b2. split; [|split; [exact Hip2|split; [exact Hops2|split; [|rewrite Hf2; exact (lk_mid lr _ _ _ _ _ _ _ _ _ M1)]]]].
     + unfold jmid in J3. destruct J3 as (R0 & E0 & A0 & S0 & K0 & L0). unfold smid.
       split; [exact R0|]. split; [exact E0|]. split; [rewrite Hf2; unfold smid in SM1; exact (proj1 (proj2 (proj2 SM1)))|]. auto.
-    + apply (Cl_B_of path prog cb CD base name SF b2 B (pop_scope env2) s2 g2 HC2). intros x k E.
+    + apply (Cl_B_of path prog P cb CD base name SF b2 B (pop_scope env2) s2 g2 HC2). intros x k E.
       destruct (Hnames b2 Hle2 x k E) as (Hux & c & c' & A1 & A2). split; [exact Hux|]. exists c, c'. split; [|exact A2].
       cbn [pop_scope locals]. rewrite Htl2. exact A1.
   - (* continue *)
@@ -2509,7 +2572,7 @@ Proof.
   { apply dec_while. eapply small_le; [|exact Hsmall]. unfold kd, kj, kst, ks, kb, kw in *. lia. }
   induction n as [|n IH]; intros aL gL envL sL bL ElL HCL EfL HipL HcbL HssL HbxL HceL HcnL; [exact Logic.I|].
   rewrite from_iter_S. rewrite ElL, Hlook.
-  destruct (proj1 (cl_heap _ _ _ _ _ _ _ _ _ _ _ _ HCL) _ _ _ HbxL) as (vx & wx & Esx & Ecx & [Hfox ->]). rewrite Esx.
+  destruct (proj1 (cl_heap _ _ _ _ _ _ _ _ _ _ _ _ _ HCL) _ _ _ HbxL) as (vx & wx & Esx & Ecx & [Hfox ->]). rewrite Esx.
   destruct vx as [i|?|?| |? ? ?]; try exact Logic.I. cbn [inj] in Ecx.
   assert (FxL : find_in_function idn (frames gL) = Some c'x) by (rewrite EfL; exact HfxF2).
   assert (FeL : find_in_function endr (frames gL) = Some ce) by (rewrite EfL; cbn [find_in_function]; now rewrite HaeF2).
@@ -2575,8 +2638,12 @@ Proof.
             forall x, In x (match step with Some se => used_e se | None => [] end) -> assoc x BL = None -> lookup_scopes x (locals env2) = None).
   { intros sig env2 s2 Eex x Hx EB0. destruct step as [se|]; [|destruct Hx]. destruct Est as (Hose & Hfree & _).
     pose proof (ok_dexpr_uname _ _ _ Hose Hx) as Hux.
-    rewrite (keeps_look x _ _ (proj2 (exec_keeps fuel) _ _ _ _ _ _ Eex x (step_free_ok _ _ _ _ Hfree Hx EB0) (proj2 (proj2 Hux)))).
-    cbn [push_scope locals lookup_scopes assoc]. rewrite ElL. exact (HlLn x Hux EB0). }
+    assert (Hn0 : lookup_scopes x (locals (push_scope envL)) = None) by (cbn [push_scope locals lookup_scopes assoc]; rewrite ElL; exact (HlLn x Hux EB0)).
+    assert (HPre : Pre x (push_scope envL) (asgl body)).
+    { right. split; [split; [exact Hn0|discriminate]|exact (step_free_ok _ _ _ _ Hfree Hx EB0)]. }
+    destruct (exec_K x (proj2 (proj2 Hux)) fuel) as [_ HKb].
+    pose proof (HKb (push_scope envL) body sL sig env2 s2 Eex HPre) as KK.
+    rewrite (K_look x (push_scope envL) env2 KK). exact Hn0. }
   (* ---- the end of the body (normal, or `continue`): the step, the back edge, the next iteration *)
   assert (Hstep : forall bB s2 a2' g2' env2, jmid bL sL ap gp bB s2 a2' g2' -> a_ip a2' = ks -> a_ops a2' = [] -> ClA bB [] env2 s2 g2' ->
             tl (frames g2') = frames gct -> lkeep (S lr1) (frames gp) (frames g2') -> tl (locals env2) = lL -> locals env2 <> [] ->
@@ -2613,7 +2680,7 @@ Proof.
                                      else SFailed FOverflow s2
                  | _ => SFailed (FType 13) s2 end)).
     { intros d aM gM RM HipM HopsM HCM TM FxM [extra EcM] AM SM.
-      destruct (proj1 (cl_heap _ _ _ _ _ _ _ _ _ _ _ _ HCM) _ _ _ HbxB) as (vx2 & wx2 & Esx2 & Ecx2 & [Hfox2 ->]). rewrite Esx2.
+      destruct (proj1 (cl_heap _ _ _ _ _ _ _ _ _ _ _ _ _ HCM) _ _ _ HbxB) as (vx2 & wx2 & Esx2 & Ecx2 & [Hfox2 ->]). rewrite Esx2.
       destruct vx2 as [i'|?|?| |? ? ?]; try exact Logic.I. cbn [inj] in Ecx2.
       set (i_a := mkI OP_BIN_OP_ASSIGN [[43%N; 61%N]; idn]) in *.
       set (gMt := trc name aM gM i_a).
@@ -2625,7 +2692,7 @@ Proof.
       assert (R0M : xrun prog name code aL gL aM gM) by (eapply xrun_trans; [exact RB|exact RM]).
       destruct (i32_ok (i' + d)%Z).
       2:{ cbn [spost fail_post]. exists (E_overflow OP_BIN_OP), gMt.
-          split; [|split; [left; reflexivity|exact (cl_out _ _ _ _ _ _ _ _ _ _ _ _ HCM)]].
+          split; [|split; [left; reflexivity|exact (cl_out _ _ _ _ _ _ _ _ _ _ _ _ _ HCM)]].
           eapply xrun_fail; [exact R0M|]. eapply xstep_fail; [exact HipM|exact Hst|apply dec_bin_op_assign|exact Hxa]. }
       set (sS := sset s2 cx (RInt (i' + d)%Z)).
       set (aS := set_ip (set_ops aM [VInt (i' + d)%Z]) (S (a_ip aM))).
@@ -2634,15 +2701,15 @@ Proof.
       assert (RS : xrun prog name code aM gM aS gS).
       { eapply (xstep_next prog name code aM gM i_a _ (a_ip aM) (set_ops aM [VInt (i' + d)%Z])); [reflexivity|rewrite HipM; exact Hst|apply dec_bin_op_assign|exact Hxa]. }
       assert (HCS : ClA bB BL env2 sS gS).
-      { apply (Cl_update path prog cb CD base name SF bB BL env2 s2 gMt cx c'x KD (RInt (i' + d)%Z) (VInt (i' + d)%Z)); [apply Cl_trc; exact HCM|exact HbxB|].
+      { apply (Cl_update path prog P cb CD base name SF bB BL env2 s2 gMt cx c'x KD (RInt (i' + d)%Z) (VInt (i' + d)%Z)); [apply Cl_trc; exact HCM|exact HbxB|].
         split; [exact Logic.I|reflexivity]. }
       set (ij := mkI OP_JMP_POP [neg_off (lbd + ls + 5)]) in *.
       set (gN := with_frames (trc name aS gS ij) (tl (frames gS))).
       assert (RN : xrun prog name code aS gS (set_ip aS kc) gN).
       { apply (back_edge2 kj (lbd + ls + 5) kc aS gS Hj); [unfold kd, kj, kst, ks, kb, kw in *; lia|unfold kd in *; lia|
-          unfold kj, kst, ks, kb, kw; lia|exact HipS|exact (proj2 (Rfr2_ne _ _ _ (cl_fr _ _ _ _ _ _ _ _ _ _ _ _ HCS)))]. }
+          unfold kj, kst, ks, kb, kw; lia|exact HipS|exact (proj2 (Rfr2_ne _ _ _ _ (cl_fr _ _ _ _ _ _ _ _ _ _ _ _ _ HCS)))]. }
       assert (HCN : ClA bB BL (pop_scope env2) sS gN).
-      { destruct (Cl_body_end bB BL envL env2 sS (trc name aS gS ij) (Cl_weaken _ _ _ _ _ _ _ _ _ _ _ _ (Cl_trc _ _ _ _ _ _ _ _ HCS))
+      { destruct (Cl_body_end bB BL envL env2 sS (trc name aS gS ij) (Cl_weaken _ _ _ _ _ _ _ _ _ _ _ _ _ (Cl_trc _ _ _ _ _ _ _ _ HCS))
                     ltac:(rewrite ElL; exact Htl2) HneL Hne2 HbL (Hnames2 bB HleB)) as [_ H0]. exact H0. }
       assert (EfN : frames gN = F2 :: R).
       { cbn [gN with_frames frames]. change (frames gS) with (frames gM). rewrite TM, TB. exact Efct. }
@@ -2679,7 +2746,7 @@ Proof.
         destruct (assoc x BL) as [kx|] eqn:EB0; [|congruence].
         destruct (Hnames2 bB HleB x kx EB0) as (Hux & c1 & c1' & A1 & _). rewrite ElL in A1.
         destruct (locals env2) as [|sc2 l2] eqn:E2l; [congruence|]. cbn [tl] in Htl2. subst l2.
-        pose proof (NS_lookup_tl sc2 lL x c1 ltac:(rewrite <- E2l; exact (cl_ns _ _ _ _ _ _ _ _ _ _ _ _ HCB)) (proj2 (proj2 Hux)) A1) as H2.
+        pose proof (NS_lookup_tl sc2 lL x c1 ltac:(rewrite <- E2l; exact (cl_ns _ _ _ _ _ _ _ _ _ _ _ _ _ HCB)) (proj2 (proj2 Hux)) A1) as H2.
         rewrite H2 in Hlk. inversion Hlk; subst c. exact A1. }
       assert (HN : forall x, In x (used_e se) -> assoc x BL = None ->
                 lookup_scopes x (locals env2) = None /\ lookup_scopes x (locals (pop_scope env2)) = None).
@@ -2715,13 +2782,13 @@ Proof.
   destruct sig as [| | |[v|]].
   - (* the body ends normally *)
     destruct H as (_ & a2' & g2' & bB & SMB & HipB & HopsB & HCB0 & LKB).
-    apply (Hstep bB s2 a2' g2' env2 (jmid_of_smid _ _ _ _ _ _ _ _ SMB) HipB HopsB (Cl_weaken _ _ _ _ _ _ _ _ _ _ _ _ HCB0)); [|exact LKB|exact Htl2|exact Hne2|exact Hfr2].
+    apply (Hstep bB s2 a2' g2' env2 (jmid_of_smid _ _ _ _ _ _ _ _ SMB) HipB HopsB (Cl_weaken _ _ _ _ _ _ _ _ _ _ _ _ _ HCB0)); [|exact LKB|exact Htl2|exact Hne2|exact Hfr2].
     unfold smid in SMB. exact (proj1 (proj2 (proj2 SMB))).
   - (* break: leave the loop *)
     destruct H as (m & aK & gK & bK & HslK & _ & J & HipK & HopsK & HCK & HfK). inversion HslK; subst m.
     rewrite popn_1 in HCK. cbn [gp push_frame with_frames frames skipn] in HfK.
     assert (HCKB : ClA bK BL (pop_scope env2) s2 gK).
-    { apply (Cl_B_of path prog cb CD base name SF bK BL (pop_scope env2) s2 gK HCK). intros y k E.
+    { apply (Cl_B_of path prog P cb CD base name SF bK BL (pop_scope env2) s2 gK HCK). intros y k E.
       destruct (Hnames2 bK (proj1 (proj1 (proj2 J))) y k E) as (Hy & c & c' & A1 & A2). split; [exact Hy|]. exists c, c'. split; [|exact A2].
       rewrite Epop, <- ElL. exact A1. }
     rewrite Huenv. apply (Hleave bK s2 aK gK (pop_scope env2) (jmid_trans _ _ _ _ _ _ _ _ _ _ _ _ J0 J) HipK HopsK HCKB Epop). rewrite HfK. exact Efct.
@@ -2756,13 +2823,13 @@ Lemma store_fast_reg : forall b B env s a1 g1 k1 y w, nth_error code k1 = Some (
 Proof.
   intros b B env s a1 g1 k1 y w Hi Hip Hops HC Hy. subst k1.
   set (i1 := mkI OP_STORE_FAST [y]) in *.
-  destruct (Cl_bind_reg path prog cb CD base name SF b B env s (trc name a1 g1 i1) y w (Cl_trc _ _ _ _ _ _ _ _ HC) Hy)
+  destruct (Cl_bind_reg path prog P cb CD base name SF b B env s (trc name a1 g1 i1) y w (Cl_trc _ _ _ _ _ _ _ _ HC) Hy)
     as (f & fs & Ef & Hb). cbv zeta in Hb. destruct Hb as [Hb HC2].
-  match type of HC2 with Cl _ _ _ _ _ _ _ _ _ _ _ ?G => set (g2 := G) in * end.
+  match type of HC2 with Cl _ _ _ _ _ _ _ _ _ _ _ _ ?G => set (g2 := G) in * end.
   exists f, fs, g2. split; [exact Ef|]. split; [|split; [exact HC2|split; [reflexivity|split; [reflexivity|split; [reflexivity|]]]]].
   - eapply (xstep_next prog name code a1 g1 i1 _ (a_ip a1) (set_ops a1 [])); [reflexivity|exact Hi|apply dec_store_fast|].
     apply (exec_store_fast y a1 _ w g2); [exact Hops|exact Hb].
-  - intros c k Hb0. destruct (heap_valid path prog _ _ _ _ _ _ (cl_heap _ _ _ _ _ _ _ _ _ _ _ _ HC) Hb0) as [_ Hc'].
+  - intros c k Hb0. destruct (heap_valid path prog _ _ _ _ _ _ (cl_heap _ _ _ _ _ _ _ _ _ _ _ _ _ HC) Hb0) as [_ Hc'].
     rewrite Nnat.Nat2N.id in Hc'. lia.
 Qed.
 
@@ -2865,7 +2932,7 @@ Proof.
   pose proof (lk_mid lr _ _ _ _ _ _ _ _ _ M1) as LK1.
   assert (Hcb1 : a_cb a1 = cb) by (unfold smid in SM1; destruct SM1 as (_ & _ & _ & (_ & _ & A) & _); congruence).
   assert (Hss1 : a_ss a1 = a_ss a) by (unfold mid, rest in M1; destruct M1 as (_ & _ & _ & _ & S1 & _); exact S1).
-  pose proof (Cl_ne _ _ _ _ _ _ _ _ _ _ _ _ HC) as Hne.
+  pose proof (Cl_ne _ _ _ _ _ _ _ _ _ _ _ _ _ HC) as Hne.
   destruct (locals env) as [|sc0 l'] eqn:El; [congruence|].
   rewrite kstmt_SFrom in Hk.
   destruct nm as [x|]; destruct collide; try discriminate.
@@ -2898,7 +2965,7 @@ Proof.
     assert (Hn3 : forall c k, ~ b2 c c'x k).
     { intros c k Hbc. destruct (proj2 E3 c c'x k Hbc) as [H0|[_ H2]]; [exact (Hn2 c k H0)|]. rewrite Ec2, app_length in H2. unfold c'x in H2. rewrite Nnat.Nat2N.id in H2. cbn [length] in H2. lia. }
     assert (Hnr : ~ own_reg c0 idn) by (intros (k & _ & _ & E); exact (lregn_not_reg _ _ E)).
-    destruct (frames g3) as [|f3 R3'] eqn:Ef3; [exact (False_ind _ (proj2 (Rfr2_ne _ _ _ (cl_fr _ _ _ _ _ _ _ _ _ _ _ _ HC3)) Ef3))|].
+    destruct (frames g3) as [|f3 R3'] eqn:Ef3; [exact (False_ind _ (proj2 (Rfr2_ne _ _ _ _ (cl_fr _ _ _ _ _ _ _ _ _ _ _ _ _ HC3)) Ef3))|].
     assert (ER : R3' = R) by (rewrite Ef2 in T3; exact T3). subst R3'.
     assert (Hax3 : assoc idn (vars f3) = Some c'x).
     { pose proof (proj2 (F3 idn Hnr)) as H. rewrite Ef3, Ef2 in H. cbn [top_vars vars] in H. rewrite H. apply assoc_set_same. }
@@ -2911,17 +2978,17 @@ Proof.
     assert (HaxF2 : assoc idn (vars F2) = Some c'x) by (unfold F2; cbn [vars]; rewrite assoc_set_other by exact Hie; exact Hax3).
     assert (HaeF2 : assoc endr (vars F2) = Some ce) by (unfold F2; cbn [vars]; apply assoc_set_same).
     assert (HndF2 : keys_nd (vars F2)).
-    { pose proof (cl_nd _ _ _ _ _ _ _ _ _ _ _ _ HC4) as Hnd. rewrite Ef4 in Hnd. inversion Hnd; assumption. }
+    { pose proof (cl_nd _ _ _ _ _ _ _ _ _ _ _ _ _ HC4) as Hnd. rewrite Ef4 in Hnd. inversion Hnd; assumption. }
     assert (Hlt3 : N.to_nat c'x < length (cells g3)) by (apply nth_error_Some; unfold cell_get in Hcx3; congruence).
     assert (Hcx4 : cell_get g4 c'x = Some (inj (RInt i0))).
     { unfold cell_get in *. rewrite Ec4, nth_error_app1 by exact Hlt3. exact Hcx3. }
     assert (Hce4 : cell_get g4 ce = Some (VInt hi)).
     { unfold cell_get, ce. rewrite Ec4, Nnat.Nat2N.id, nth_error_app2, Nat.sub_diag by lia. reflexivity. }
     (* the reference semantics declares the hidden counter now: the two cells are paired *)
-    pose proof (Cl_declare_hid path prog cb CD base name SF b2 B env s2 g4 (RInt i0) c'x sc0 l' HC4 El Logic.I Hcx4 Hn3) as HC5. cbv zeta in HC5.
+    pose proof (Cl_declare_hid path prog P cb CD base name SF b2 B env s2 g4 (RInt i0) c'x sc0 l' HC4 El Logic.I Hcx4 Hn3) as HC5. cbv zeta in HC5.
     set (cx := N.of_nat (length (store s2))) in *. set (b3 := add_pair b2 cx c'x KD) in *.
     set (lL := assoc_set hid cx sc0 :: l') in *.
-    match type of HC5 with Cl _ _ _ _ _ _ _ _ _ ?E ?S _ => set (envH := E) in *; set (sH := S) in * end.
+    match type of HC5 with Cl _ _ _ _ _ _ _ _ _ _ ?E ?S _ => set (envH := E) in *; set (sH := S) in * end.
     assert (Edec : declare env s2 hid (RInt i0) = (envH, sH)) by (unfold declare, alloc; rewrite El; reflexivity).
     change [0%N] with hid. rewrite Edec.
     set (lE := assoc_del hid (assoc_set hid cx sc0) :: l').
@@ -2991,7 +3058,7 @@ Proof.
       { intros j Hjj. cbn [with_frames frames find_in_function vars lab]. rewrite Hvs; [reflexivity| |exact (proj1 (Hlkj j Hjj))].
         exact (proj2 (Hlkj j Hjj) eq_refl). }
       split.
-      { apply (Cl_undeclare_hid path prog cb CD base name SF b5 B env5 s5 g5t (assoc_set hid cx sc0) l' F2 R vs (Cl_trc _ _ _ _ _ _ _ _ HC5') El5 Ef5).
+      { apply (Cl_undeclare_hid path prog P cb CD base name SF b5 B env5 s5 g5t (assoc_set hid cx sc0) l' F2 R vs (Cl_trc _ _ _ _ _ _ _ _ HC5') El5 Ef5).
         - intros y Hy. apply Hvs; intros ->; [exact (lregn_not_uname0 _ Hy)|exact (lregn_not_uname0 _ Hy)].
         - unfold vs. apply keys_nd_assoc_del. apply keys_nd_assoc_del. exact HndF2. }
       unfold undeclare. rewrite El5. reflexivity.
@@ -3017,7 +3084,7 @@ Proof.
     set (i_sx := mkI OP_STORE [x]) in *.
     set (g1t := trc name a1 g1 i_sx).
     pose proof (Cl_trc b1 B env s1 g1 name a1 i_sx HC1) as HC1t. fold g1t in HC1t.
-    destruct (cl_B _ _ _ _ _ _ _ _ _ _ _ _ HC1t x KD HxB) as (_ & cx & c'x & A1 & A2 & A3).
+    destruct (cl_B _ _ _ _ _ _ _ _ _ _ _ _ _ HC1t x KD HxB) as (_ & cx & c'x & A1 & A2 & A3).
     assert (Hst0 : store_var g1t x (inj va) = Some (cell_set g1t c'x (inj va))) by (unfold store_var; now rewrite A2).
     set (a2 := set_ip (set_ops a1 []) (S (a_ip a1))).
     set (g2 := cell_set g1t c'x (inj va)).
@@ -3025,7 +3092,7 @@ Proof.
     assert (R2 : xrun prog name code a1 g1 a2 g2).
     { eapply (xstep_next prog name code a1 g1 i_sx _ (a_ip a1) (set_ops a1 [])); [reflexivity|rewrite Hip1; exact Hi1|apply dec_store|].
       apply (exec_store x a1 g1t (inj va) g2); [exact Hops1|exact Hst0]. }
-    assert (HC2 : ClA b1 B env s1' g2) by (apply (Cl_update path prog cb CD base name SF b1 B env s1 g1t cx c'x KD va (inj va) HC1t A3); split; [exact Hfoa|reflexivity]).
+    assert (HC2 : ClA b1 B env s1' g2) by (apply (Cl_update path prog P cb CD base name SF b1 B env s1 g1t cx c'x KD va (inj va) HC1t A3); split; [exact Hfoa|reflexivity]).
     assert (SM2 : smid b1 s1 a1 g1 b1 s1' a2 g2).
     { unfold smid. split; [exact R2|]. split; [apply bext_refl|]. split; [reflexivity|]. split; [repeat split|]. split; [reflexivity|].
       split; [change (keep b1 g1t (cell_set g1t c'x (inj va))); eapply keep_cell_set; exact A3|].
@@ -3064,8 +3131,8 @@ Proof.
     assert (Hce4 : cell_get g4 ce = Some (VInt hi)).
     { unfold cell_get, ce. rewrite Ec4, Nnat.Nat2N.id, nth_error_app2, Nat.sub_diag by lia. reflexivity. }
     assert (Hfx4 : find_in_function x (F2 :: R) = Some c'x).
-    { destruct (cl_B _ _ _ _ _ _ _ _ _ _ _ _ HC4 x KD HxB) as (_ & c2 & c2' & Y1 & Y2 & Y3). rewrite Ef4 in Y2. rewrite A1 in Y1. inversion Y1; subst c2.
-      destruct (proj2 (cl_heap _ _ _ _ _ _ _ _ _ _ _ _ HC4) _ _ _ _ _ _ Y3 A3) as [Hiff _]. assert (c2' = c'x) by (apply Hiff; reflexivity). congruence. }
+    { destruct (cl_B _ _ _ _ _ _ _ _ _ _ _ _ _ HC4 x KD HxB) as (_ & c2 & c2' & Y1 & Y2 & Y3). rewrite Ef4 in Y2. rewrite A1 in Y1. inversion Y1; subst c2.
+      destruct (proj2 (cl_heap _ _ _ _ _ _ _ _ _ _ _ _ _ HC4) _ _ _ _ _ _ Y3 A3) as [Hiff _]. assert (c2' = c'x) by (apply Hiff; reflexivity). congruence. }
     set (lL := sc0 :: l') in *.
     assert (A1L : lookup_scopes x lL = Some cx) by (rewrite <- El; exact A1).
     assert (SMH : smid b s a g b1 s1' a4 g4).
@@ -3103,12 +3170,12 @@ Proof.
     - intros envX EX. eapply bound2_eq; [exact Hb|]. rewrite EX, El. reflexivity.
     - intros envX EX. eapply bound2_eq; [exact Hb|]. rewrite EX, El. reflexivity.
     - intros bB env2 s2' g2' HCB Htl2 Hne2 _ _ HbxB.
-      destruct (cl_B _ _ _ _ _ _ _ _ _ _ _ _ HCB x KD HxB) as (_ & c2 & c2' & Y1 & Y2 & Y3).
+      destruct (cl_B _ _ _ _ _ _ _ _ _ _ _ _ _ HCB x KD HxB) as (_ & c2 & c2' & Y1 & Y2 & Y3).
       assert (Hlx2 : lookup_scopes x (locals env2) = Some cx).
       { destruct (locals env2) as [|sc2 l2] eqn:E2l; [congruence|]. cbn [tl] in Htl2. subst l2.
-        apply NS_lookup_tl; [rewrite <- E2l; exact (cl_ns _ _ _ _ _ _ _ _ _ _ _ _ HCB)|exact (proj2 (proj2 Hx))|exact A1L]. }
+        apply NS_lookup_tl; [rewrite <- E2l; exact (cl_ns _ _ _ _ _ _ _ _ _ _ _ _ _ HCB)|exact (proj2 (proj2 Hx))|exact A1L]. }
       rewrite Hlx2 in Y1. inversion Y1; subst c2.
-      destruct (proj2 (cl_heap _ _ _ _ _ _ _ _ _ _ _ _ HCB) _ _ _ _ _ _ Y3 HbxB) as [Hiff _]. assert (c2' = c'x) by (apply Hiff; reflexivity). congruence.
+      destruct (proj2 (cl_heap _ _ _ _ _ _ _ _ _ _ _ _ _ HCB) _ _ _ _ _ _ Y3 HbxB) as [Hiff _]. assert (c2' = c'x) by (apply Hiff; reflexivity). congruence.
     - reflexivity.
     - intros envX EX. exact EX.
     - intros k E. exact (src_name_not_reg x k (proj1 Hx) E).
@@ -3127,172 +3194,250 @@ Proof.
     - exact Hn4. }
   (* ---------------- a fresh counter: a variable of the enclosing block for the duration of the loop *)
   match type of Hk with (if ?c then _ else _) = _ => destruct c eqn:Hcnd; [|discriminate] end.
-  rewrite !andb_true_iff in Hcnd. destruct Hcnd as [[[[[_ Hob] Hsx] HxB] HxU] Hks].
-  apply negb_true_iff in HxB. apply negb_true_iff in HxU.
+  rewrite !andb_true_iff in Hcnd. destruct Hcnd as [[[[[_ _] Hsx] HxB] HxU] Hks].
+  apply negb_true_iff in HxB.
   destruct (kblock SF true ((x, KD) :: B) CD body) as [[B1 rb]|] eqn:Eb; [|discriminate]. inversion Hk; subst B' rets.
   destruct (stepc_inv _ _ _ _ _ ((x, KD) :: B) body Esc Hks) as [-> Est].
   pose proof (src_nameb_ok x Hsx) as Hx.
   assert (HxnB : ~ In x (map fst B)) by (intros Hin; apply In_mem_str in Hin; congruence).
-  assert (HxnU : ~ In x (used_e eb)) by (intros Hin; apply In_mem_str in Hin; congruence).
   assert (HxBn : assoc x B = None).
   { destruct (assoc x B) as [k|] eqn:E; [|reflexivity]. exfalso. apply HxnB. eapply assoc_in_keys; exact E. }
-  rewrite (ec_pure path eb (ok_dexpr_pure _ _ _ Hob)) in Ecb. inversion Ecb; subst cb_ fb. clear Ecb.
   unfold nd in *. apply items_at_cons in Hdel as [Hdel _]. cbn [item_instr I] in Hdel.
-  (* store_fast x: the counter, on both sides *)
+  (* store_fast x: the VM binds the counter now *)
   set (i_sx := mkI OP_STORE_FAST [x]) in *.
   set (g1t := trc name a1 g1 i_sx).
   pose proof (Cl_trc b1 B env s1 g1 name a1 i_sx HC1) as HC1t. fold g1t in HC1t.
   assert (Hn : lookup_scopes x (sc0 :: l') = None).
   { destruct (lookup_scopes x (sc0 :: l')) eqn:E; [|reflexivity]. exfalso. apply HxnB. apply (bound2_in _ _ _ Hb (proj2 (proj2 Hx))). rewrite El. congruence. }
-  destruct (frames g1t) as [|f1 R] eqn:Ef1; [exact (False_ind _ (proj2 (Rfr2_ne _ _ _ (cl_fr _ _ _ _ _ _ _ _ _ _ _ _ HC1t)) Ef1))|].
-  destruct (Cl_declare path prog cb CD base name SF b1 B env s1 g1t x KD va (inj va) sc0 l' f1 R HC1t Hx (conj Hfoa eq_refl) El Ef1
-              ltac:(rewrite El; exact Hn) HxBn (trace g1t)) as [HC2 He2]. cbv zeta in HC2, He2.
-  set (cx := N.of_nat (length (store s1))) in *. set (c'x := N.of_nat (length (cells g1t))) in *.
-  set (b2 := add_pair b1 cx c'x KD) in *.
-  match type of HC2 with Cl _ _ _ _ _ _ _ _ _ ?E ?S ?G => set (env1 := E) in *; set (s1' := S) in *; set (g2 := G) in * end.
+  destruct (frames g1t) as [|f1 R] eqn:Ef1; [exact (False_ind _ (proj2 (Rfr2_ne _ _ _ _ (cl_fr _ _ _ _ _ _ _ _ _ _ _ _ _ HC1t)) Ef1))|].
+  set (c'x := N.of_nat (length (cells g1t))) in *.
   set (B2 := (x, KD) :: B) in *.
   set (a2 := set_ip (set_ops a1 []) (S (a_ip a1))).
   assert (Hip2 : a_ip a2 = S k1) by (cbn [a2 set_ip a_ip]; now rewrite Hip1).
+  set (g2 := {| cells := cells g1t ++ [inj va]; frames := {| lab := lab f1; vars := assoc_set x c'x (vars f1) |} :: R; out := out g1t; trace := trace g1t |}).
   assert (R2 : xrun prog name code a1 g1 a2 g2).
   { eapply (xstep_next prog name code a1 g1 i_sx _ (a_ip a1) (set_ops a1 [])); [reflexivity|rewrite Hip1; exact Hi1|apply dec_store_fast|].
     apply (exec_store_fast x a1 g1t (inj va) g2); [exact Hops1|]. unfold bind_local. rewrite Ef1. reflexivity. }
-  assert (Hb2 : bound2 B2 env1) by (eapply (bound2_declare B env x KD _ sc0 l' env1 Hb El); [reflexivity|exact Hx]).
-  (* the upper bound: the reference semantics evaluates it before the counter exists; same result *)
-  destruct (ok_dexpr_parts B eb Hob) as (Hpb & Hlb & Hub).
-  assert (Hagb : forall y, In y (used_e eb) -> agree env s1 env1 s1' y).
-  { intros y Hy. destruct (Hub y Hy) as [_ Hky].
-    destruct (var_cell b1 B env s1 g1 y KD HC1 Hb Hky) as (_ & c & c' & v & w & A1 & _ & _ & _ & A3 & _).
-    exists c, c, v. split; [exact A1|]. split; [exact A3|]. split.
-    - cbn [env1 locals captured]. rewrite <- A1, El. cbn [app lookup_scopes]. rewrite assoc_set_other; [reflexivity|]. intros ->. exact (HxnU Hy).
-    - unfold sget in *. cbn [s1' store]. rewrite nth_error_app1; [exact A3|apply nth_error_Some; congruence]. }
-  destruct (eval_pure_congr eb Hpb fuel env s1 env1 s1' Hagb) as [Hst_b Eb1].
-  pose proof (dexpr_run b2 B2 eb c0 fuel (S k1) a2 g2 env1 s1' (ok_dexpr_weaken B x eb Hob HxnU) Hb2
-                ltac:(lia) Hcb2 ltac:(fold lb; unfold fin, kd, kj, kst, ks, kb, kw, kc, k3 in *; lia) Hip2 eq_refl
-                ltac:(cbn [a2 set_ip set_ops a_cb]; exact Hcb1) HC2) as Heb.
-  rewrite Eb1 in Heb. fold lb in Heb. fold k3 in Heb.
-  assert (SM2 : smid b s a g b2 s1' a2 g2).
-  { eapply smid_trans; [exact SM1|]. unfold smid. split; [exact R2|]. split; [exact He2|].
-    split; [cbn [g2 frames tl]; change (frames g1) with (frames g1t); now rewrite Ef1|]. split; [repeat split|]. split; [reflexivity|].
-    split; [apply (keep_cells_app _ _ _ [inj va]); reflexivity|].
-    split; [cbn [s1' store]; rewrite app_length; lia|cbn [g2 cells g1t trc add_trace]; rewrite app_length; lia]. }
-  destruct (eval fuel env eb s1) as [vb sb|sb|f sb|]; cbn [res_to res_st] in Hst_b, Heb; [|contradiction| |exact Logic.I].
-  2:{ subst sb. destruct Heb as (_ & e0 & g' & Hf & Hr & Ho). cbn [spost]. apply fail_post_intro. exists e0, g'.
-      split; [eapply smid_fail; [exact SM2|exact Hf]|]. split; [now apply err_rel_s_of|exact Ho]. }
-  subst sb. destruct Heb as (_ & Hfob & g3 & R3 & HC3 & He3).
-  destruct va as [i0|?|?| |? ? ?]; try exact Logic.I.
-  destruct vb as [hi|?|?| |? ? ?]; try exact Logic.I. cbn [inj] in *.
-  cbv zeta.
-  assert (Edec : declare env s1 x (RInt i0) = (env1, s1')) by (unfold declare, alloc; rewrite El; reflexivity).
-  rewrite Edec.
-  set (a3 := upd a2 (S k1 + lb) [VInt hi]) in *.
-  assert (SM3 : smid b2 s1' a2 g2 b2 s1' a3 g3).
-  { unfold smid. split; [exact R3|]. split; [apply bext_refl|]. split; [exact (ext_tail _ _ _ _ _ He3)|]. split; [repeat split|]. split; [reflexivity|].
-    destruct (ext_cells _ _ _ _ _ He3) as [extra Ec]. split; [eapply keep_cells_app; exact Ec|]. split; [lia|rewrite Ec, app_length; lia]. }
-  assert (LK3 : lkeep lr (frames g2) (frames g3)).
-  { intros j _. apply (ext_find _ _ _ _ _ He3). intros (k & _ & _ & E). exact (lregn_not_reg _ _ E). }
-  (* store_fast L#(lr+1) : the end of the range *)
-  destruct (store_fast_reg b2 B2 env1 s1' a3 g3 k3 endr (VInt hi) Hi3 eq_refl eq_refl HC3 (lregn_not_uname0 _)) as (f3 & R' & g4 & Ef3 & R4 & HC4 & Ef4 & Ec4 & Eo4 & Hn4).
-  assert (ER : R' = R).
-  { assert (H : tl (frames g3) = tl (frames g2)) by exact (ext_tail _ _ _ _ _ He3). rewrite Ef3 in H. exact H. }
-  subst R'.
-  set (ce := N.of_nat (length (cells g3))) in *. set (a4 := upd a3 (S k3) []) in *.
-  set (F2 := {| lab := lab f3; vars := assoc_set endr ce (vars f3) |}) in *.
-  assert (SM4 : smid b2 s1' a3 g3 b2 s1' a4 g4) by (eapply smid_bind; [exact R4|exact Ef3|exact Ef4|exact Ec4|repeat split|reflexivity]).
-  set (lL := assoc_set x cx sc0 :: l') in *.
-  assert (Hax3 : assoc x (vars f3) = Some c'x).
-  { pose proof (ext_top _ _ _ _ _ He3 x ltac:(apply own_reg_not_src; exact (proj1 Hx))) as H.
-    rewrite Ef3 in H. cbn [top_vars frames g2 vars] in H. rewrite H. apply assoc_set_same. }
-  assert (HaxF2 : assoc x (vars F2) = Some c'x) by (unfold F2; cbn [vars]; rewrite assoc_set_other by exact Hie; exact Hax3).
-  assert (HaeF2 : assoc endr (vars F2) = Some ce) by (unfold F2; cbn [vars]; apply assoc_set_same).
-  assert (HndF2 : keys_nd (vars F2)).
-  { pose proof (cl_nd _ _ _ _ _ _ _ _ _ _ _ _ HC4) as Hnd. rewrite Ef4 in Hnd. inversion Hnd; assumption. }
   assert (Hsc0 : assoc x sc0 = None /\ lookup_scopes x l' = None).
   { cbn [lookup_scopes] in Hn. destruct (assoc x sc0); [discriminate|]. auto. }
-  assert (Hdel0 : assoc_del x (assoc_set x cx sc0) = sc0) by (apply assoc_del_set_absent; exact (proj1 Hsc0)).
-  assert (Hce4 : cell_get g4 ce = Some (VInt hi)).
-  { unfold cell_get, ce. rewrite Ec4, Nnat.Nat2N.id, nth_error_app2, Nat.sub_diag by lia. reflexivity. }
-  assert (Hbx : b2 cx c'x KD) by (right; auto).
-  assert (SMH : smid b s a g b2 s1' a4 g4).
-  { eapply smid_trans; [exact SM2|]. eapply smid_trans; [exact SM3|exact SM4]. }
-  assert (LKH : lkeep lr (frames g) (frames g4)).
-  { apply (lkeep_trans lr (frames g) (frames g1) (frames g4)); [exact LK1|].
-    apply (lkeep_trans lr (frames g1) (frames g2) (frames g4)).
-    { change (frames g1) with (frames g1t). rewrite Ef1. cbn [g2 frames]. apply lk_bind. intros j. apply uname0_not_lregn. exact Hx. }
-    apply (lkeep_trans lr (frames g2) (frames g3) (frames g4)); [exact LK3|].
-    rewrite Ef3, Ef4. apply lk_bind2. intros j Hjj E. exact (proj1 (Hlkj j Hjj) (eq_sym E)). }
-  apply (spost_seq b B rb lr sl bt ct fin env s a g b2 env1 s1' a4 g4 _ SMH LKH);
-    [split; [cbn [env1 locals tl]; rewrite El; reflexivity|cbn [env1 locals]; discriminate]|].
-  eapply (from_loop body Hbody incl step x x endr false lr lr sl bt ct B B2 B1 rb kc lbd ls (k0 + length fa + 0) fin cbody fbd cs fuel
-            ltac:(lia) hi cx c'x ce F2 R lL (sc0 :: l') (fun e => undeclare e x)).
-  - exact Eb.
-  - exact Est.
-  - exact Ebc.
-  - exact Hinbd.
-  - lia.
-  - reflexivity.
-  - reflexivity.
-  - exact Hc1.
-  - exact Hc2'.
-  - exact Hc3'.
-  - exact Hw'.
-  - exact Hib'.
-  - exact Hcs'.
-  - exact Hst'.
-  - exact Hj'.
-  - eapply lrok_mono; [exact Hlrk|]. unfold fin, kd, kj, kst, ks, kb, kw, kc, k3, k1 in *. lia.
-  - unfold fin. lia.
-  - exact Hend.
-  - cbn [lL lookup_scopes]. now rewrite assoc_set_same.
-  - cbn [find_in_function]. now rewrite HaxF2.
-  - exact HaeF2.
-  - discriminate.
-  - split; [discriminate|reflexivity].
-  - intros envX EX. eapply bound2_eq; [exact Hb2|]. rewrite EX. reflexivity.
-  - intros envX EX. eapply bound2_eq; [exact Hb|]. rewrite EX, El. reflexivity.
-  - intros bB env2 s2' g2' HCB Htl2 Hne2 _ _ HbxB.
-    destruct (cl_B _ _ _ _ _ _ _ _ _ _ _ _ HCB x KD ltac:(cbn [B2 assoc]; now rewrite str_eqb_refl)) as (_ & c2 & c2' & Y1 & Y2 & Y3).
-    assert (Hlx2 : lookup_scopes x (locals env2) = Some cx).
-    { destruct (locals env2) as [|sc2 l2] eqn:E2l; [congruence|]. cbn [tl] in Htl2. subst l2.
-      apply NS_lookup_tl; [rewrite <- E2l; exact (cl_ns _ _ _ _ _ _ _ _ _ _ _ _ HCB)|exact (proj2 (proj2 Hx))|].
-      cbn [lL lookup_scopes]. now rewrite assoc_set_same. }
-    rewrite Hlx2 in Y1. inversion Y1; subst c2.
-    destruct (proj2 (cl_heap _ _ _ _ _ _ _ _ _ _ _ _ HCB) _ _ _ _ _ _ Y3 HbxB) as [Hiff _]. assert (c2' = c'x) by (apply Hiff; reflexivity). congruence.
-  - reflexivity.
-  - intros envX EX. unfold undeclare. rewrite EX. cbn [locals lL]. now rewrite Hdel0.
-  - intros k E. exact (src_name_not_reg x k (proj1 Hx) E).
-  - (* leaving the loop: delete the counter and the end register *)
-    intros a5 g5 env5 s5 b5 El5 HC5' Ef5 Hip5 Hops5. change (a_ip a5 = kd) in Hip5.
-    set (vs := assoc_del endr (assoc_del x (vars F2))).
-    set (i_d := mkI OP_DELETE_NAME_SCOPED [x; endr]) in *.
-    set (g5t := trc name a5 g5 i_d).
-    exists (set_ip a5 (S kd)), (with_frames g5t ({| lab := lab F2; vars := vs |} :: R)).
-    assert (Hvs : forall y, y <> x -> y <> endr -> assoc y vs = assoc y (vars F2)) by (intros y H1 H2; unfold vs; now rewrite !assoc_del_other by assumption).
-    split.
-    { rewrite <- Hip5. eapply (xstep_next prog name code a5 g5 i_d _ (a_ip a5) a5); [reflexivity|rewrite Hip5; atp Hdel|apply dec_delete2|].
-      exact (exec_delete2 x endr a5 g5t F2 R c'x ce Ef5 Hie HaxF2 HaeF2). }
-    split; [cbn [set_ip a_ip]; unfold fin; lia|]. split; [exact Hops5|]. split; [repeat split|]. split; [reflexivity|]. split; [reflexivity|].
-    split; [reflexivity|]. split.
-    { intros j Hjj. cbn [with_frames frames find_in_function vars lab]. rewrite Hvs; [reflexivity| |exact (proj1 (Hlkj j Hjj))].
-      intros E. exact (uname0_not_lregn x j Hx (eq_sym E)). }
-    split.
-    { apply (Cl_undeclare path prog cb CD base name SF b5 B env5 s5 g5t x KD (assoc_set x cx sc0) l' F2 R vs (Cl_trc _ _ _ _ _ _ _ _ HC5') El5 Ef5 Hx HxBn).
-      + intros y Hy Hne0. apply Hvs; [exact Hne0|]. intros ->. exact (lregn_not_uname0 _ Hy).
-      + unfold vs. rewrite assoc_del_other by exact Hie. now apply assoc_del_nd_none.
-      + rewrite Hdel0. exact (proj1 Hsc0).
-      + exact (proj2 Hsc0).
-      + unfold vs. apply keys_nd_assoc_del. apply keys_nd_assoc_del. exact HndF2. }
-    unfold undeclare. rewrite El5. cbn [locals lL]. now rewrite Hdel0.
-  - reflexivity.
-  - exact HC4.
-  - exact Ef4.
-  - reflexivity.
-  - cbn [a4 a3 a2 upd set_ip set_ops a_cb]. exact Hcb1.
-  - cbn [a4 a3 a2 upd set_ip set_ops a_ss lL length]. rewrite Hss1. cbn [length] in Hss. exact Hss.
-  - exact Hbx.
-  - exact Hce4.
-  - exact Hn4.
+  assert (Hdel0 : forall cx, assoc_del x (assoc_set x cx sc0) = sc0) by (intros cx; apply assoc_del_set_absent; exact (proj1 Hsc0)).
+  assert (SM12 : smid b1 s1 a1 g1 b1 s1 a2 g2).
+  { eapply smid_bind; [exact R2|change (frames g1) with (frames g1t); exact Ef1|reflexivity|reflexivity|repeat split|reflexivity]. }
+  assert (LK12 : lkeep lr (frames g1) (frames g2)).
+  { change (frames g1) with (frames g1t). rewrite Ef1. cbn [g2 frames]. apply lk_bind. intros j. apply uname0_not_lregn. exact Hx. }
+  (* ---------------- what follows the upper bound: the counter is a variable on both sides, its cells are paired *)
+  assert (Hcont : forall b2 sb a3 g3 hi,
+            let cx := N.of_nat (length (store sb)) in
+            let env1 := {| locals := assoc_set x cx sc0 :: l'; captured := captured env; cur := cur env |} in
+            let s1' := {| store := store sb ++ [va]; rout := rout sb |} in
+            ClA b2 B2 env1 s1' g3 -> smid b s a g b2 s1' a3 g3 -> lkeep lr (frames g) (frames g3) ->
+            a_ip a3 = k3 -> a_ops a3 = [VInt hi] -> a_cb a3 = cb -> a_ss a3 = a_ss a ->
+            tl (frames g3) = R -> assoc x (top_vars (frames g3)) = Some c'x -> b2 cx c'x KD ->
+            spost b B rb lr sl bt ct fin env s a g (from_iter fuel incl hi step x false body fuel env1 s1')).
+  { intros b2 sb a3 g3 hi cx env1 s1' HC3 SM3 LK3 Hip3 Hops3 Hcb3 Hss3 Htl3 Htop3 Hbx.
+    assert (Hb2 : bound2 B2 env1) by (eapply (bound2_declare B env x KD _ sc0 l' env1 Hb El); [reflexivity|exact Hx]).
+    (* store_fast L#(lr+1) : the end of the range *)
+    destruct (store_fast_reg b2 B2 env1 s1' a3 g3 k3 endr (VInt hi) Hi3 Hip3 Hops3 HC3 (lregn_not_uname0 _)) as (f3 & R' & g4 & Ef3 & R4 & HC4 & Ef4 & Ec4 & Eo4 & Hn4).
+    assert (ER : R' = R) by (rewrite Ef3 in Htl3; exact Htl3).
+    subst R'.
+    set (ce := N.of_nat (length (cells g3))) in *. set (a4 := upd a3 (S k3) []) in *.
+    set (F2 := {| lab := lab f3; vars := assoc_set endr ce (vars f3) |}) in *.
+    assert (SM4 : smid b2 s1' a3 g3 b2 s1' a4 g4) by (eapply smid_bind; [exact R4|exact Ef3|exact Ef4|exact Ec4|repeat split|reflexivity]).
+    set (lL := assoc_set x cx sc0 :: l') in *.
+    assert (Hax3 : assoc x (vars f3) = Some c'x) by (rewrite Ef3 in Htop3; exact Htop3).
+    assert (HaxF2 : assoc x (vars F2) = Some c'x) by (unfold F2; cbn [vars]; rewrite assoc_set_other by exact Hie; exact Hax3).
+    assert (HaeF2 : assoc endr (vars F2) = Some ce) by (unfold F2; cbn [vars]; apply assoc_set_same).
+    assert (HndF2 : keys_nd (vars F2)).
+    { pose proof (cl_nd _ _ _ _ _ _ _ _ _ _ _ _ _ HC4) as Hnd. rewrite Ef4 in Hnd. inversion Hnd; assumption. }
+    assert (Hce4 : cell_get g4 ce = Some (VInt hi)).
+    { unfold cell_get, ce. rewrite Ec4, Nnat.Nat2N.id, nth_error_app2, Nat.sub_diag by lia. reflexivity. }
+    assert (SMH : smid b s a g b2 s1' a4 g4) by (eapply smid_trans; [exact SM3|exact SM4]).
+    assert (LKH : lkeep lr (frames g) (frames g4)).
+    { apply (lkeep_trans lr (frames g) (frames g3) (frames g4)); [exact LK3|].
+      rewrite Ef3, Ef4. apply lk_bind2. intros j Hjj E. exact (proj1 (Hlkj j Hjj) (eq_sym E)). }
+    apply (spost_seq b B rb lr sl bt ct fin env s a g b2 env1 s1' a4 g4 _ SMH LKH);
+      [split; [cbn [env1 locals tl]; rewrite El; reflexivity|cbn [env1 locals]; discriminate]|].
+    eapply (from_loop body Hbody incl step x x endr false lr lr sl bt ct B B2 B1 rb kc lbd ls (k0 + length fa + length fb) fin cbody fbd cs fuel
+              ltac:(lia) hi cx c'x ce F2 R lL (sc0 :: l') (fun e => undeclare e x)).
+    - exact Eb.
+    - exact Est.
+    - exact Ebc.
+    - exact Hinbd.
+    - lia.
+    - reflexivity.
+    - reflexivity.
+    - exact Hc1.
+    - exact Hc2'.
+    - exact Hc3'.
+    - exact Hw'.
+    - exact Hib'.
+    - exact Hcs'.
+    - exact Hst'.
+    - exact Hj'.
+    - eapply lrok_mono; [exact Hlrk|]. unfold fin, kd, kj, kst, ks, kb, kw, kc, k3, k1 in *. lia.
+    - unfold fin. lia.
+    - exact Hend.
+    - cbn [lL lookup_scopes]. now rewrite assoc_set_same.
+    - cbn [find_in_function]. now rewrite HaxF2.
+    - exact HaeF2.
+    - discriminate.
+    - split; [discriminate|reflexivity].
+    - intros envX EX. eapply bound2_eq; [exact Hb2|]. rewrite EX. reflexivity.
+    - intros envX EX. eapply bound2_eq; [exact Hb|]. rewrite EX, El. reflexivity.
+    - intros bB env2 s2' g2' HCB Htl2 Hne2 _ _ HbxB.
+      destruct (cl_B _ _ _ _ _ _ _ _ _ _ _ _ _ HCB x KD ltac:(cbn [B2 assoc]; now rewrite str_eqb_refl)) as (_ & c2 & c2' & Y1 & Y2 & Y3).
+      assert (Hlx2 : lookup_scopes x (locals env2) = Some cx).
+      { destruct (locals env2) as [|sc2 l2] eqn:E2l; [congruence|]. cbn [tl] in Htl2. subst l2.
+        apply NS_lookup_tl; [rewrite <- E2l; exact (cl_ns _ _ _ _ _ _ _ _ _ _ _ _ _ HCB)|exact (proj2 (proj2 Hx))|].
+        cbn [lL lookup_scopes]. now rewrite assoc_set_same. }
+      rewrite Hlx2 in Y1. inversion Y1; subst c2.
+      destruct (proj2 (cl_heap _ _ _ _ _ _ _ _ _ _ _ _ _ HCB) _ _ _ _ _ _ Y3 HbxB) as [Hiff _]. assert (c2' = c'x) by (apply Hiff; reflexivity). congruence.
+    - reflexivity.
+    - intros envX EX. unfold undeclare. rewrite EX. cbn [locals lL]. now rewrite (Hdel0 cx).
+    - intros k E. exact (src_name_not_reg x k (proj1 Hx) E).
+    - (* leaving the loop: delete the counter and the end register *)
+      intros a5 g5 env5 s5 b5 El5 HC5' Ef5 Hip5 Hops5. change (a_ip a5 = kd) in Hip5.
+      set (vs := assoc_del endr (assoc_del x (vars F2))).
+      set (i_d := mkI OP_DELETE_NAME_SCOPED [x; endr]) in *.
+      set (g5t := trc name a5 g5 i_d).
+      exists (set_ip a5 (S kd)), (with_frames g5t ({| lab := lab F2; vars := vs |} :: R)).
+      assert (Hvs : forall y, y <> x -> y <> endr -> assoc y vs = assoc y (vars F2)) by (intros y H1 H2; unfold vs; now rewrite !assoc_del_other by assumption).
+      split.
+      { rewrite <- Hip5. eapply (xstep_next prog name code a5 g5 i_d _ (a_ip a5) a5); [reflexivity|rewrite Hip5; atp Hdel|apply dec_delete2|].
+        exact (exec_delete2 x endr a5 g5t F2 R c'x ce Ef5 Hie HaxF2 HaeF2). }
+      split; [cbn [set_ip a_ip]; unfold fin; lia|]. split; [exact Hops5|]. split; [repeat split|]. split; [reflexivity|]. split; [reflexivity|].
+      split; [reflexivity|]. split.
+      { intros j Hjj. cbn [with_frames frames find_in_function vars lab]. rewrite Hvs; [reflexivity| |exact (proj1 (Hlkj j Hjj))].
+        intros E. exact (uname0_not_lregn x j Hx (eq_sym E)). }
+      split.
+      { apply (Cl_undeclare path prog P cb CD base name SF b5 B env5 s5 g5t x KD (assoc_set x cx sc0) l' F2 R vs (Cl_trc _ _ _ _ _ _ _ _ HC5') El5 Ef5 Hx HxBn).
+        + intros y Hy Hne0. apply Hvs; [exact Hne0|]. intros ->. exact (lregn_not_uname0 _ Hy).
+        + unfold vs. rewrite assoc_del_other by exact Hie. now apply assoc_del_nd_none.
+        + rewrite (Hdel0 cx). exact (proj1 Hsc0).
+        + exact (proj2 Hsc0).
+        + unfold vs. apply keys_nd_assoc_del. apply keys_nd_assoc_del. exact HndF2. }
+      unfold undeclare. rewrite El5. cbn [locals lL]. now rewrite (Hdel0 cx).
+    - reflexivity.
+    - exact HC4.
+    - exact Ef4.
+    - reflexivity.
+    - cbn [a4 upd set_ip set_ops a_cb]. exact Hcb3.
+    - cbn [a4 upd set_ip set_ops a_ss lL length]. rewrite Hss3. cbn [length] in Hss. exact Hss.
+    - exact Hbx.
+    - exact Hce4.
+    - exact Hn4.
+ }
+  destruct (orb_prop _ _ HxU) as [Hpure|HxC].
+  - (* ---- the upper bound is call-free and does not mention x: the reference semantics may declare the counter first *)
+    apply andb_true_iff in Hpure as [Hob HxU0]. apply negb_true_iff in HxU0.
+    assert (HxnU : ~ In x (used_e eb)) by (intros Hin; apply In_mem_str in Hin; congruence).
+    rewrite (ec_pure path eb (ok_dexpr_pure _ _ _ Hob)) in Ecb. inversion Ecb; subst cb_ fb. clear Ecb.
+    destruct (Cl_declare path prog P cb CD base name SF b1 B env s1 g1t x KD va (inj va) sc0 l' f1 R HC1t Hx (conj Hfoa eq_refl) El Ef1
+                ltac:(rewrite El; exact Hn) HxBn (trace g1t)) as [HC2 He2]. cbv zeta in HC2, He2. fold c'x g2 in HC2.
+    set (cx := N.of_nat (length (store s1))) in *.
+    set (b2 := add_pair b1 cx c'x KD) in *.
+    match type of HC2 with Cl _ _ _ _ _ _ _ _ _ _ ?E ?S _ => set (env1 := E) in *; set (s1' := S) in * end.
+    assert (Hb2 : bound2 B2 env1) by (eapply (bound2_declare B env x KD _ sc0 l' env1 Hb El); [reflexivity|exact Hx]).
+    destruct (ok_dexpr_parts B eb Hob) as (Hpb & Hlb & Hub).
+    assert (Hagb : forall y, In y (used_e eb) -> agree env s1 env1 s1' y).
+    { intros y Hy. destruct (Hub y Hy) as [_ Hky].
+      destruct (var_cell b1 B env s1 g1 y KD HC1 Hb Hky) as (_ & c & c' & v & w & A1 & _ & _ & _ & A3 & _).
+      exists c, c, v. split; [exact A1|]. split; [exact A3|]. split.
+      - cbn [env1 locals captured]. rewrite <- A1, El. cbn [app lookup_scopes]. rewrite assoc_set_other; [reflexivity|]. intros ->. exact (HxnU Hy).
+      - unfold sget in *. cbn [s1' store]. rewrite nth_error_app1; [exact A3|apply nth_error_Some; congruence]. }
+    destruct (eval_pure_congr eb Hpb fuel env s1 env1 s1' Hagb) as [Hst_b Eb1].
+    pose proof (dexpr_run b2 B2 eb c0 fuel (S k1) a2 g2 env1 s1' (ok_dexpr_weaken B x eb Hob HxnU) Hb2
+                  ltac:(lia) Hcb2 ltac:(fold lb; unfold fin, kd, kj, kst, ks, kb, kw, kc, k3 in *; lia) Hip2 eq_refl
+                  ltac:(cbn [a2 set_ip set_ops a_cb]; exact Hcb1) HC2) as Heb.
+    rewrite Eb1 in Heb. fold lb in Heb. fold k3 in Heb.
+    assert (SM2 : smid b s a g b2 s1' a2 g2).
+    { eapply smid_trans; [exact SM1|]. unfold smid. split; [exact R2|]. split; [exact He2|].
+      split; [cbn [g2 frames tl]; change (frames g1) with (frames g1t); now rewrite Ef1|]. split; [repeat split|]. split; [reflexivity|].
+      split; [apply (keep_cells_app _ _ _ [inj va]); reflexivity|].
+      split; [cbn [s1' store]; rewrite app_length; lia|cbn [g2 cells g1t trc add_trace]; rewrite app_length; lia]. }
+    destruct (eval fuel env eb s1) as [vb sb|sb|f sb|]; cbn [res_to res_st] in Hst_b, Heb; [|contradiction| |exact Logic.I].
+    2:{ subst sb. destruct Heb as (_ & e0 & g' & Hf & Hr & Ho). cbn [spost]. apply fail_post_intro. exists e0, g'.
+        split; [eapply smid_fail; [exact SM2|exact Hf]|]. split; [now apply err_rel_s_of|exact Ho]. }
+    subst sb. destruct Heb as (_ & Hfob & g3 & R3 & HC3 & He3).
+    destruct va as [i0|?|?| |? ? ?]; try exact Logic.I.
+    destruct vb as [hi|?|?| |? ? ?]; try exact Logic.I. cbn [inj] in *.
+    cbv zeta.
+    assert (Edec : declare env s1 x (RInt i0) = (env1, s1')) by (unfold declare, alloc; rewrite El; reflexivity).
+    rewrite Edec.
+    set (a3 := upd a2 (S k1 + lb) [VInt hi]) in *.
+    assert (SM3 : smid b2 s1' a2 g2 b2 s1' a3 g3).
+    { unfold smid. split; [exact R3|]. split; [apply bext_refl|]. split; [exact (ext_tail _ _ _ _ _ He3)|]. split; [repeat split|]. split; [reflexivity|].
+      destruct (ext_cells _ _ _ _ _ He3) as [extra Ec]. split; [eapply keep_cells_app; exact Ec|]. split; [lia|rewrite Ec, app_length; lia]. }
+    assert (LK3 : lkeep lr (frames g2) (frames g3)).
+    { intros j _. apply (ext_find _ _ _ _ _ He3). intros (k & _ & _ & E). exact (lregn_not_reg _ _ E). }
+    apply (Hcont b2 s1 a3 g3 hi HC3).
+    + eapply smid_trans; [exact SM2|exact SM3].
+    + apply (lkeep_trans lr (frames g) (frames g1) (frames g3)); [exact LK1|]. apply (lkeep_trans lr (frames g1) (frames g2) (frames g3)); [exact LK12|exact LK3].
+    + reflexivity.
+    + reflexivity.
+    + cbn [a3 a2 upd set_ip set_ops a_cb]. exact Hcb1.
+    + cbn [a3 a2 upd set_ip set_ops a_ss]. exact Hss1.
+    + rewrite (ext_tail _ _ _ _ _ He3). reflexivity.
+    + rewrite (ext_top _ _ _ _ _ He3 x ltac:(apply own_reg_not_src; exact (proj1 Hx))). cbn [top_vars frames g2 vars]. apply assoc_set_same.
+    + right. auto.
+  - (* ---- the upper bound may contain calls: it runs while the VM alone binds x (a name no captured variable has); the reference
+          semantics declares the counter afterwards, and the two cells are paired then *)
+    apply negb_true_iff in HxC.
+    assert (HxCD : assoc x CD = None).
+    { destruct (assoc x CD) as [k|] eqn:E; [|reflexivity]. exfalso. apply assoc_in_keys in E. apply In_mem_str in E. congruence. }
+    pose proof (Cl_bind_ghost path prog (fun y => y <> x) P cb CD base name SF b1 B env s1 g1t x (inj va) f1 R HC1t
+                  (fun y Hy => conj (HPall y) Hy) Ef1 HxBn ltac:(rewrite El; exact Hn) (trace g1t)) as HCg2. cbv zeta in HCg2. fold c'x g2 in HCg2.
+    assert (Hcx2 : cell_get g2 c'x = Some (inj va)).
+    { unfold cell_get, c'x. cbn [g2 cells]. rewrite Nnat.Nat2N.id, nth_error_app2, Nat.sub_diag by lia. reflexivity. }
+    assert (Hn2 : forall c k, ~ b1 c c'x k).
+    { intros c k Hbc. destruct (heap_valid path prog _ _ _ _ _ _ (cl_heap _ _ _ _ _ _ _ _ _ _ _ _ _ HC1t) Hbc) as [_ Hc']. unfold c'x in Hc'. rewrite Nnat.Nat2N.id in Hc'. lia. }
+    pose proof (Hghost x eb HxCD Hx b1 B c0 lr1 (k0 + length fa) fuel (S k1) a2 g2 env s1 ltac:(lia) Ebk Hb) as Heb. rewrite Ecb in Heb. cbn [fst snd] in Heb. fold lb in Heb.
+    specialize (Heb Hinb ltac:(unfold fin, kd, kj, kst, ks, kb, kw, kc, k3 in *; lia) Hcb2 ltac:(unfold fin, kd, kj, kst, ks, kb, kw, kc, k3 in *; lia)
+                    Hip2 ltac:(cbn [a2 set_ip set_ops a_cb]; exact Hcb1) eq_refl HCg2).
+    fold k3 in Heb.
+    destruct (eval fuel env eb s1) as [vb sb|sb|f sb|]; cbn [spost] in Heb |- *; [|contradiction| |exact Logic.I].
+    2:{ eapply fail_post_map; [|exact Heb]. intros (e0 & g' & Hf & Hr). exists e0, g'.
+        split; [eapply smid_fail; [exact SM1|]; eapply smid_fail; [exact SM12|exact Hf]|exact Hr]. }
+    destruct Heb as (a3 & g3 & b3 & wb & R3 & Hip3 & Hops3 & E3 & HCg3 & [Hfob ->] & Rest3).
+    pose proof (smid_of_mid b1 c0 s1 a2 g2 b3 sb a3 g3 (conj R3 (conj E3 Rest3))) as SM3.
+    pose proof (lk_mid lr b1 c0 s1 a2 g2 b3 sb a3 g3 (conj R3 (conj E3 Rest3))) as LK3.
+    unfold rest in Rest3. destruct Rest3 as (T3 & A3 & S3 & K3 & F3 & L3).
+    destruct va as [i0|?|?| |? ? ?]; try exact Logic.I.
+    destruct vb as [hi|?|?| |? ? ?]; try exact Logic.I. cbn [inj] in *.
+    cbv zeta.
+    assert (Hcx3 : cell_get g3 c'x = Some (VInt i0)) by exact (K3 _ _ Hcx2 Hn2).
+    assert (Hn3 : forall c k, ~ b3 c c'x k).
+    { intros c k Hbc. destruct (proj2 E3 c c'x k Hbc) as [H0|[_ H2]]; [exact (Hn2 c k H0)|]. cbn [g2 cells] in H2. rewrite app_length in H2. unfold c'x in H2. rewrite Nnat.Nat2N.id in H2. cbn [length] in H2. lia. }
+    destruct (frames g3) as [|f3 R3'] eqn:Ef3; [exact (False_ind _ (proj2 (Rfr2_ne _ _ _ _ (cl_fr _ _ _ _ _ _ _ _ _ _ _ _ _ HCg3)) Ef3))|].
+    assert (ER : R3' = R) by (cbn [g2 frames tl] in T3; exact T3). subst R3'.
+    assert (Hax3 : assoc x (vars f3) = Some c'x).
+    { pose proof (proj2 (F3 x ltac:(apply own_reg_not_src; exact (proj1 Hx)))) as H. rewrite Ef3 in H. cbn [top_vars g2 frames vars] in H. rewrite H. apply assoc_set_same. }
+    pose proof (Cl_declare_late path prog (fun y => y <> x) P cb CD base name SF b1 b3 B env sb g3 x (RInt i0) c'x sc0 l' f1 f3 R HCg3
+                  (fun y Hne _ => Hne) ltac:(rewrite <- Ef1; exact (cl_fr _ _ _ _ _ _ _ _ _ _ _ _ _ HC1t)) (proj1 E3) El Ef3 Hx Hax3 Logic.I Hcx3 Hn3
+                  ltac:(rewrite El; exact Hn) HxBn) as HC3. cbv zeta in HC3.
+    assert (Edec : declare env sb x (RInt i0) = ({| locals := assoc_set x (N.of_nat (length (store sb))) sc0 :: l'; captured := captured env; cur := cur env |},
+                                                 {| store := store sb ++ [RInt i0]; rout := rout sb |})) by (unfold declare, alloc; rewrite El; reflexivity).
+    rewrite Edec.
+    assert (SM03 : smid b s a g b3 sb a3 g3).
+    { eapply smid_trans; [exact SM1|]. eapply smid_trans; [exact SM12|exact SM3]. }
+    apply (Hcont (add_pair b3 (N.of_nat (length (store sb))) c'x KD) sb a3 g3 hi HC3).
+    + unfold smid in SM03 |- *. destruct SM03 as (R0 & [Ele Efr] & T0 & A0 & S0 & K0 & [L0a L0b]).
+      split; [exact R0|]. split.
+      { split; [intros c c' k Hbc; left; exact (Ele _ _ _ Hbc)|].
+        intros c c' k [Hbc|(-> & -> & ->)]; [exact (Efr _ _ _ Hbc)|right]. unfold c'x. rewrite !Nnat.Nat2N.id. split; [exact L0a|].
+        unfold smid in SM1. destruct SM1 as (_ & _ & _ & _ & _ & _ & [_ X]). exact X. }
+      split; [exact T0|]. split; [exact A0|]. split; [exact S0|]. split; [exact K0|].
+      split; [cbn [store]; rewrite app_length; lia|exact L0b].
+    + apply (lkeep_trans lr (frames g) (frames g1) (frames g3)); [exact LK1|]. apply (lkeep_trans lr (frames g1) (frames g2) (frames g3)); [exact LK12|].
+      rewrite Ef3. exact LK3.
+    + exact Hip3.
+    + exact Hops3.
+    + destruct A3 as (_ & _ & X3). cbn [a2 set_ip set_ops a_cb] in X3. congruence.
+    + rewrite S3. cbn [a2 set_ip set_ops a_ss]. exact Hss1.
+    + rewrite Ef3. reflexivity.
+    + rewrite Ef3. exact Hax3.
+    + right. auto.
 Qed.
-
 Theorem sspec_all : forall st, sspec st.
 Proof.
   apply (stmt_ind' (fun _ => True) sspec); try (intros; exact Logic.I).
@@ -3315,3 +3460,18 @@ Theorem bspec_all : forall l, bspec l.
 Proof. intros l. apply bspec_of. apply Forall_forall. intros st _. apply sspec_all. Qed.
 End Act.
 End Sim.
+
+(* the hypothesis Hghost of the statement layer: espec_all, for the relation that leaves the counter out *)
+Lemma ghost_all : forall path prog name code cb CD base SF c0, small (c0 + 2 * length code + 8) ->
+  forall FU, (forall fuel', fuel' < FU -> call_sim path prog fuel') -> ghost_spec path prog name code cb CD base SF c0 FU.
+Proof.
+  intros path prog name code cb CD base SF c0 Hsm FU Hcall x eb HxCD Hx b B d lr k0 fuel kp a g env s Hfu Hk Hb Hin Hd Hc Hend Hip Hcb Hops HC.
+  assert (HP : forall y, assoc y CD <> None -> y <> x) by (intros y Hy ->; exact (Hy HxCD)).
+  pose proof (espec_all path prog name code cb CD base SF c0 Hsm FU Hcall (fun y => y <> x) HP eb b B d lr k0 fuel kp a g env s KD
+                Hfu Hk Hb Hin Hd Hc Hend Hip Hcb Hops HC) as H.
+  destruct (eval fuel env eb s) as [v s1|s1|f s1|]; cbn [eres_ok] in H.
+  - exact H.
+  - destruct H as [H _]. discriminate H.
+  - exact H.
+  - exact Logic.I.
+Qed.
